@@ -1,4 +1,4 @@
-(* C04 - proofs about the look-ups of ModelLineTable.v *)
+(* C04 - proofs about the look-ups of LineTable.v *)
 From BS Require Import Model.Base.
 From BS Require Import Model.LineTable.
 From Coq Require Import Lia.
@@ -203,79 +203,6 @@ Proof.
   - rewrite Hb. reflexivity.
 Qed.
 
-(* the index find_place_by_pc / find_eb use: the LAST row whose address is <= pc, or 0 *)
-Lemma pc_pos_ok : forall rows pc, sorted_rows rows ->
-  exists i, pc_pos rows pc = Ok i /\
-    (forall j r, (i < j)%nat -> nth_error rows j = Some r -> pc < r_addr r) /\
-    (i = 0%nat \/ exists r, nth_error rows i = Some r /\ r_addr r <= pc).
-Proof.
-  intros rows pc Hs. unfold pc_pos. destruct (bsearch_ok _ pc Hs) as [r [Hr Hp]]. rewrite Hr. cbn [bind].
-  destruct r as [i|p]; cbn [bs_post] in Hp.
-  - destruct Hp as [Hi Hafter]. exists i. split; [reflexivity|]. split.
-    + intros j r Hj Hjr. apply (Hafter j (r_addr r)); [assumption|]. rewrite nth_map, Hjr. reflexivity.
-    + right. apply nth_map_some in Hi. destruct Hi as [a [Ha Hpc]]. exists a. split; [assumption|lia].
-  - destruct Hp as [Hlen [Hlt Hgt]]. exists (p - 1)%nat. split; [reflexivity|]. split.
-    + intros j r Hj Hjr. apply (Hgt j (r_addr r)); [lia|]. rewrite nth_map, Hjr. reflexivity.
-    + destruct p as [|p]; [left; reflexivity|]. right.
-      replace (S p - 1)%nat with p by lia.
-      destruct (nth_error (map r_addr rows) p) as [k|] eqn:Hk.
-      2:{ apply nth_error_None in Hk. lia. }
-      assert (k < pc) by (apply (Hlt p k); [lia|assumption]).
-      apply nth_map_some in Hk. destruct Hk as [a [Ha Hk]]. exists a. split; [assumption|lia].
-Qed.
-
-Lemma find_place_by_idx_some : forall u i r, files_ok u -> nth_error (u_rows u) i = Some r ->
-  find_place_by_idx u i = Ok (Some (i, r)).
-Proof.
-  intros u i r Hf Hr. unfold find_place_by_idx, mk_place. rewrite Hr.
-  assert (r_file r < u_nfiles u) by (apply Hf; eapply nth_error_In; eauto).
-  destruct (N.ltb_spec (r_file r) (u_nfiles u)); [reflexivity|lia].
-Qed.
-
-Lemma find_place_by_idx_none : forall u i, nth_error (u_rows u) i = None -> find_place_by_idx u i = Ok None.
-Proof. intros u i H. unfold find_place_by_idx. rewrite H. reflexivity. Qed.
-
-(* EXACT characterisation of BsUnit::find_place_by_pc on a sorted vector: never None unless the
-   table is empty; the last row with address <= pc if there is one, else row 0. *)
-Theorem find_place_by_pc_exact : forall u pc, sorted_rows (u_rows u) -> files_ok u ->
-  (u_rows u = [] /\ find_place_by_pc u pc = Ok None) \/
-  exists i r, find_place_by_pc u pc = Ok (Some (i, r)) /\ nth_error (u_rows u) i = Some r /\
-    (forall j x, (i < j)%nat -> nth_error (u_rows u) j = Some x -> pc < r_addr x) /\
-    (r_addr r <= pc \/ (i = 0%nat /\ forall x, In x (u_rows u) -> pc < r_addr x)).
-Proof.
-  intros u pc Hs Hf. destruct (pc_pos_ok _ pc Hs) as [i [Hi [Hafter Hat]]].
-  unfold find_place_by_pc. rewrite Hi. cbn [bind].
-  destruct (nth_error (u_rows u) i) as [r|] eqn:Hr.
-  - right. exists i, r. split; [apply find_place_by_idx_some; assumption|]. split; [assumption|].
-    split; [assumption|].
-    destruct Hat as [H0|[r' [Hr' Hle]]].
-    + subst i. destruct (N.leb_spec (r_addr r) pc) as [Hle|Hgt]; [left; assumption|]. right.
-      split; [reflexivity|]. intros x Hx. apply In_nth_error in Hx. destruct Hx as [j Hj].
-      destruct j as [|j]; [congruence|]. apply (Hafter (S j) x); [lia|assumption].
-    + left. congruence.
-  - left. destruct Hat as [H0|[r' [Hr' _]]]; [|congruence]. subst i.
-    destruct (u_rows u) eqn:E; [|discriminate]. split; [reflexivity|].
-    apply find_place_by_idx_none. rewrite E. reflexivity.
-Qed.
-
-(* The sorted vector [rows] against the table in program order [prog]: every row r of [prog] that
-   covers a non-empty interval [r.addr, r'.addr) (r' = next row of its sequence) occurs in [rows]
-   at an index after which only rows at or beyond r'.addr follow.  This fails exactly when the
-   sort put another row with r's address (typically the end_sequence row of the previous
-   function) after r, or when sequences overlap. *)
-Definition tie_ok (prog rows : list row) : Prop :=
-  forall r r', In (r, r') (seq_pairs prog) -> r_addr r < r_addr r' ->
-    exists i, nth_error rows i = Some r /\
-      forall j y, (i < j)%nat -> nth_error rows j = Some y -> r_addr r' <= r_addr y.
-
-Fixpoint tie_at (r r' : row) (rows : list row) : bool :=
-  match rows with
-  | [] => false
-  | x :: t => (row_eqb x r && forallb (fun y => r_addr r' <=? r_addr y) t) || tie_at r r' t
-  end.
-Definition tie_okb (prog rows : list row) : bool :=
-  forallb (fun p => negb (r_addr (fst p) <? r_addr (snd p)) || tie_at (fst p) (snd p) rows) (seq_pairs prog).
-
 Lemma row_eqb_eq : forall a b, row_eqb a b = true -> a = b.
 Proof.
   intros [a1 a2 a3 a4 a5 a6 a7 a8] [b1 b2 b3 b4 b5 b6 b7 b8] H. unfold row_eqb in H. cbn in H.
@@ -293,16 +220,265 @@ Proof.
   rewrite !N.eqb_refl, !Bool.eqb_reflx. reflexivity.
 Qed.
 
+(* the index after the binary search: the LAST row whose address is <= pc, or 0 *)
+Lemma bs_pos_ok : forall rows pc, sorted_rows rows ->
+  exists i, bs_pos rows pc = Ok i /\
+    (forall j r, (i < j)%nat -> nth_error rows j = Some r -> pc < r_addr r) /\
+    (i = 0%nat \/ exists r, nth_error rows i = Some r /\ r_addr r <= pc).
+Proof.
+  intros rows pc Hs. unfold bs_pos. destruct (bsearch_ok _ pc Hs) as [r [Hr Hp]]. rewrite Hr. cbn [bind].
+  destruct r as [i|p]; cbn [bs_post] in Hp.
+  - destruct Hp as [Hi Hafter]. exists i. split; [reflexivity|]. split.
+    + intros j r Hj Hjr. apply (Hafter j (r_addr r)); [assumption|]. rewrite nth_map, Hjr. reflexivity.
+    + right. apply nth_map_some in Hi. destruct Hi as [a [Ha Hpc]]. exists a. split; [assumption|lia].
+  - destruct Hp as [Hlen [Hlt Hgt]]. exists (p - 1)%nat. split; [reflexivity|]. split.
+    + intros j r Hj Hjr. apply (Hgt j (r_addr r)); [lia|]. rewrite nth_map, Hjr. reflexivity.
+    + destruct p as [|p]; [left; reflexivity|]. right.
+      replace (S p - 1)%nat with p by lia.
+      destruct (nth_error (map r_addr rows) p) as [k|] eqn:Hk.
+      2:{ apply nth_error_None in Hk. lia. }
+      assert (k < pc) by (apply (Hlt p k); [lia|assumption]).
+      apply nth_map_some in Hk. destruct Hk as [a [Ha Hk]]. exists a. split; [assumption|lia].
+Qed.
+
+Lemma bs_pos_total : forall rows pc, exists i, bs_pos rows pc = Ok i /\ (i < length rows \/ rows = [])%nat.
+Proof.
+  intros rows pc. unfold bs_pos. destruct (bsearch_total (map r_addr rows) pc) as [r [Hr Hb]]. rewrite Hr.
+  cbn [bind]. rewrite map_length in Hb. destruct r as [i|p].
+  - exists i. split; [reflexivity|left; assumption].
+  - exists (p - 1)%nat. split; [reflexivity|]. destruct rows; [right; reflexivity|left]. cbn [length] in *. lia.
+Qed.
+
+Lemma find_place_by_idx_some : forall u i r, files_ok u -> nth_error (u_rows u) i = Some r ->
+  find_place_by_idx u i = Ok (Some (i, r)).
+Proof.
+  intros u i r Hf Hr. unfold find_place_by_idx, mk_place. rewrite Hr.
+  assert (r_file r < u_nfiles u) by (apply Hf; eapply nth_error_In; eauto).
+  destruct (N.ltb_spec (r_file r) (u_nfiles u)); [reflexivity|lia].
+Qed.
+
+Lemma find_place_by_idx_none : forall u i, nth_error (u_rows u) i = None -> find_place_by_idx u i = Ok None.
+Proof. intros u i H. unfold find_place_by_idx. rewrite H. reflexivity. Qed.
+
+(* runs of equal addresses *)
+Lemma count_run_spec : forall a l,
+  (count_run a l <= length l)%nat /\
+  (forall k x, (k < count_run a l)%nat -> nth_error l k = Some x -> r_addr x = a) /\
+  (forall x, nth_error l (count_run a l) = Some x -> r_addr x <> a).
+Proof.
+  intros a. induction l as [|r t [IH1 [IH2 IH3]]]; cbn [count_run length].
+  - split; [lia|]. split; [intros; lia|]. intros x H. discriminate.
+  - destruct (N.eqb_spec (r_addr r) a) as [He|Hne].
+    + split; [lia|]. split.
+      * intros k x Hk Hx. destruct k as [|k]; cbn [nth_error] in Hx; [congruence|].
+        apply (IH2 k x); [lia|assumption].
+      * intros x Hx. cbn [nth_error] in Hx. auto.
+    + split; [lia|]. split; [intros; lia|]. intros x Hx. cbn [nth_error] in Hx. congruence.
+Qed.
+
+Lemma count_run_ge : forall a l m, (m <= length l)%nat ->
+  (forall k x, (k < m)%nat -> nth_error l k = Some x -> r_addr x = a) -> (m <= count_run a l)%nat.
+Proof.
+  intros a. induction l as [|r t IH]; intros m Hm H; cbn [count_run length] in *; [lia|].
+  destruct m as [|m]; [lia|].
+  assert (r_addr r = a) by (apply (H 0%nat r); [lia|reflexivity]).
+  destruct (N.eqb_spec (r_addr r) a); [|contradiction].
+  assert (m <= count_run a t)%nat; [|lia].
+  apply IH; [lia|]. intros k x Hk Hx. apply (H (S k) x); [lia|exact Hx].
+Qed.
+
+Lemma nth_firstn_lt : forall {A} (l : list A) p j, (j < p)%nat -> nth_error (firstn p l) j = nth_error l j.
+Proof.
+  induction l as [|x l IH]; intros p j Hj; [destruct p, j; reflexivity|].
+  destruct p as [|p]; [lia|]. destruct j as [|j]; cbn [firstn nth_error]; [reflexivity|]. apply IH. lia.
+Qed.
+
+Lemma nth_rev : forall {A} (l : list A) k, (k < length l)%nat ->
+  nth_error (rev l) k = nth_error l (length l - 1 - k).
+Proof.
+  intros A. induction l as [|x l IH]; intros k Hk; cbn [length] in *; [lia|].
+  cbn [rev]. destruct (Nat.eq_dec k (length l)) as [->|Hne].
+  - rewrite nth_error_app2 by (rewrite rev_length; lia). rewrite rev_length, Nat.sub_diag.
+    replace (S (length l) - 1 - length l)%nat with 0%nat by lia. reflexivity.
+  - rewrite nth_error_app1 by (rewrite rev_length; lia). rewrite IH by lia.
+    replace (S (length l) - 1 - k)%nat with (S (length l - 1 - k)) by lia. reflexivity.
+Qed.
+
+Lemma nth_rev_firstn : forall {A} (l : list A) p k, (k < p)%nat -> (p <= length l)%nat ->
+  nth_error (rev (firstn p l)) k = nth_error l (p - 1 - k).
+Proof.
+  intros A l p k Hk Hp. rewrite nth_rev by (rewrite firstn_length_le; lia).
+  rewrite firstn_length_le by lia. apply nth_firstn_lt. lia.
+Qed.
+
+Lemma nth_skipn : forall {A} (l : list A) n k, nth_error (skipn n l) k = nth_error l (n + k).
+Proof.
+  induction l as [|x l IH]; intros [|n] k; cbn [skipn Nat.add]; try reflexivity.
+  - destruct k; reflexivity.
+  - cbn [nth_error]. apply IH.
+Qed.
+
+(* the run [first..last] of rows with the address of rows[p] around p *)
+Lemma run_facts : forall rows p r0, nth_error rows p = Some r0 ->
+  let a := r_addr r0 in
+  let first := (p - count_run a (rev (firstn p rows)))%nat in
+  let last := (p + count_run a (skipn (S p) rows))%nat in
+  (first <= p <= last)%nat /\ (last < length rows)%nat /\
+  (forall j x, (first <= j <= last)%nat -> nth_error rows j = Some x -> r_addr x = a) /\
+  (forall i, (i <= p)%nat -> (forall j x, (i <= j <= p)%nat -> nth_error rows j = Some x -> r_addr x = a) ->
+             (first <= i)%nat) /\
+  (forall i, (p <= i < length rows)%nat ->
+             (forall j x, (p <= j <= i)%nat -> nth_error rows j = Some x -> r_addr x = a) -> (i <= last)%nat).
+Proof.
+  intros rows p r0 Hp a first last.
+  assert (Hpl : (p < length rows)%nat) by (apply nth_error_Some; congruence).
+  destruct (count_run_spec a (rev (firstn p rows))) as [B1 [B2 _]].
+  destruct (count_run_spec a (skipn (S p) rows)) as [A1 [A2 _]].
+  rewrite rev_length, firstn_length_le in B1 by lia. rewrite skipn_length in A1.
+  split; [unfold first, last; lia|]. split; [unfold last; lia|]. split; [|split].
+  - intros j x Hj Hx. destruct (Nat.lt_trichotomy j p) as [Hlt|[->|Hgt]].
+    + apply (B2 (p - 1 - j)%nat x); [unfold first in Hj; lia|].
+      rewrite nth_rev_firstn by lia. replace (p - 1 - (p - 1 - j))%nat with j by lia. exact Hx.
+    + assert (x = r0) by congruence. subst x. reflexivity.
+    + apply (A2 (j - S p)%nat x); [unfold last in Hj; lia|].
+      rewrite nth_skipn. replace (S p + (j - S p))%nat with j by lia. exact Hx.
+  - intros i Hi Hall.
+    assert (p - i <= count_run a (rev (firstn p rows)))%nat; [|unfold first; lia].
+    apply count_run_ge; [rewrite rev_length, firstn_length_le; lia|].
+    intros k x Hk Hx. rewrite nth_rev_firstn in Hx by lia. apply (Hall (p - 1 - k)%nat x); [lia|exact Hx].
+  - intros i Hi Hall.
+    assert (i - p <= count_run a (skipn (S p) rows))%nat; [|unfold last; lia].
+    apply count_run_ge; [rewrite skipn_length; lia|].
+    intros k x Hk Hx. rewrite nth_skipn in Hx. apply (Hall (S p + k)%nat x); [lia|exact Hx].
+Qed.
+
+Lemma rfind_result : forall rows first n,
+  (forall j, (first <= j < first + n)%nat -> nth_error rows j <> None) ->
+  (rfind_non_es rows first n = Ok None /\
+   forall j y, (first <= j < first + n)%nat -> nth_error rows j = Some y -> r_es y = true) \/
+  (exists i x, rfind_non_es rows first n = Ok (Some i) /\ (first <= i < first + n)%nat /\
+     nth_error rows i = Some x /\ r_es x = false /\
+     forall j y, (i < j < first + n)%nat -> nth_error rows j = Some y -> r_es y = true).
+Proof.
+  intros rows first. induction n as [|n IH]; intros Hall; cbn [rfind_non_es].
+  - left. split; [reflexivity|]. intros; lia.
+  - destruct (nth_error rows (first + n)) as [r|] eqn:Hr.
+    2:{ exfalso. apply (Hall (first + n)%nat); [lia|assumption]. }
+    destruct (r_es r) eqn:Hes.
+    + destruct IH as [[H1 H2]|[i [x [H1 [H2 [H3 [H4 H5]]]]]]].
+      { intros j Hj. apply Hall. lia. }
+      * left. split; [assumption|]. intros j y Hj Hy.
+        destruct (Nat.eq_dec j (first + n)) as [->|Hne]; [congruence|]. apply (H2 j y); [lia|assumption].
+      * right. exists i, x. split; [assumption|]. split; [lia|]. split; [assumption|]. split; [assumption|].
+        intros j y Hj Hy. destruct (Nat.eq_dec j (first + n)) as [->|Hne]; [congruence|].
+        apply (H5 j y); [lia|assumption].
+    + right. exists (first + n)%nat, r. split; [reflexivity|]. split; [lia|]. split; [assumption|].
+      split; [assumption|]. intros; lia.
+Qed.
+
+(* EXACT characterisation of the repaired BsUnit::find_place_by_pc on a sorted vector.  Let a be
+   the greatest row address <= pc (the lowest address of the table if every row is above pc): the
+   answer is the LAST non-end_sequence row of address a, or (when every row at a ends a sequence) the
+   last row of address a <= pc.  Never a panic; None only for an empty table. *)
+Theorem find_place_by_pc_exact : forall u pc, sorted_rows (u_rows u) -> files_ok u ->
+  (u_rows u = [] /\ find_place_by_pc u pc = Ok None) \/
+  exists m r, find_place_by_pc u pc = Ok (Some (m, r)) /\ nth_error (u_rows u) m = Some r /\
+    (forall x, In x (u_rows u) -> r_addr x <= r_addr r \/ pc < r_addr x) /\
+    (r_addr r <= pc \/ forall x, In x (u_rows u) -> pc < r_addr x) /\
+    ((r_es r = false /\
+      forall j y, (m < j)%nat -> nth_error (u_rows u) j = Some y -> r_addr y = r_addr r -> r_es y = true) \/
+     (forall y, In y (u_rows u) -> r_addr y = r_addr r -> r_es y = true)).
+Proof.
+  intros u pc Hs Hf. destruct (bs_pos_ok _ pc Hs) as [p [Hp [Hafter Hat]]].
+  unfold find_place_by_pc, pc_pos. rewrite Hp. cbn [bind].
+  destruct (nth_error (u_rows u) p) as [r0|] eqn:Hr0.
+  2:{ left. destruct Hat as [->|[r' [Hr' _]]]; [|congruence].
+      destruct (u_rows u); [split; reflexivity|discriminate]. }
+  right. cbn [bind].
+  destruct (run_facts (u_rows u) p r0 Hr0) as [Hfpl [Hlast [Hrun [Hmin Hmax]]]].
+  set (a := r_addr r0) in *.
+  set (first := (p - count_run a (rev (firstn p (u_rows u))))%nat) in *.
+  set (last := (p + count_run a (skipn (S p) (u_rows u)))%nat) in *.
+  (* every row with address a lies in the run *)
+  assert (Hin_run : forall j y, nth_error (u_rows u) j = Some y -> r_addr y = a -> (first <= j <= last)%nat).
+  { intros j y Hj Hy. destruct (Nat.le_ge_cases j p) as [Hle|Hge].
+    - split; [|lia]. apply Hmin; [assumption|]. intros k x Hk Hx.
+      assert (r_addr y <= r_addr x) by (eapply (sorted_rows_le (u_rows u) j k); eauto; lia).
+      assert (r_addr x <= r_addr r0) by (eapply (sorted_rows_le (u_rows u) k p); eauto; lia).
+      unfold a in *. lia.
+    - split; [lia|]. apply Hmax.
+      + split; [assumption|]. apply nth_error_Some. congruence.
+      + intros k x Hk Hx.
+        assert (r_addr r0 <= r_addr x) by (eapply (sorted_rows_le (u_rows u) p k); eauto; lia).
+        assert (r_addr x <= r_addr y) by (eapply (sorted_rows_le (u_rows u) k j); eauto; lia).
+        unfold a in *. lia. }
+  (* rows outside the run relative to pc *)
+  assert (Hother : forall x, In x (u_rows u) -> r_addr x <= a \/ pc < r_addr x).
+  { intros x Hx. apply In_nth_error in Hx. destruct Hx as [j Hj].
+    destruct (Nat.le_gt_cases j p) as [Hle|Hgt].
+    - left. unfold a. eapply (sorted_rows_le (u_rows u) j p); eauto.
+    - right. apply (Hafter j x Hgt Hj). }
+  assert (Hapc : a <= pc \/ forall x, In x (u_rows u) -> pc < r_addr x).
+  { destruct Hat as [->|[r' [Hr' Hle]]].
+    - destruct (N.leb_spec a pc) as [Hle|Hgt]; [left; assumption|]. right.
+      intros x Hx. apply In_nth_error in Hx. destruct Hx as [j Hj].
+      assert (r_addr r0 <= r_addr x) by (eapply (sorted_rows_le (u_rows u) 0%nat j); eauto; lia).
+      unfold a in *. lia.
+    - left. unfold a. congruence. }
+  destruct (rfind_result (u_rows u) first (S (last - first))) as [[Hn Hall]|[i [x [Hi [Hir [Hix [Hes Hlater]]]]]]].
+  { intros j Hj. apply nth_error_Some. lia. }
+  - rewrite Hn. cbn [bind]. exists p, r0. split; [apply find_place_by_idx_some; assumption|].
+    split; [assumption|]. split; [exact Hother|]. split; [exact Hapc|]. right.
+    intros y Hy Hya. apply In_nth_error in Hy. destruct Hy as [j Hj].
+    destruct (Hin_run j y Hj Hya). apply (Hall j y); [lia|assumption].
+  - rewrite Hi. cbn [bind]. assert (Hxa : r_addr x = a) by (apply (Hrun i x); [lia|assumption]).
+    exists i, x. split; [apply find_place_by_idx_some; assumption|]. split; [assumption|].
+    rewrite Hxa. split; [exact Hother|]. split; [exact Hapc|]. left. split; [assumption|].
+    intros j y Hj Hy Hya. destruct (Hin_run j y Hy Hya). apply (Hlater j y); [lia|assumption].
+Qed.
+
+Lemma seq_pairs_fst : forall prog r r', In (r, r') (seq_pairs prog) -> r_es r = false.
+Proof.
+  induction prog as [|x t IH]; intros r r' H; [destruct H|].
+  destruct t as [|y t']; [destruct H|]. cbn [seq_pairs] in H. destruct (r_es x) eqn:Hx.
+  - apply (IH r r' H).
+  - destruct H as [H|H]; [inversion H; subst; assumption|apply (IH r r' H)].
+Qed.
+
+(* The sorted vector [rows] against the table in program order [prog]: every row r of [prog] that
+   covers a non-empty interval [r.addr, r'.addr) (r' = next row of its sequence) occurs in [rows]
+   at an index after which only end_sequence rows of r's address and rows at or beyond r'.addr
+   follow: r is the last non-end_sequence row of its address and no row of another sequence lies
+   strictly inside its interval. *)
+Definition tie_ok (prog rows : list row) : Prop :=
+  forall r r', In (r, r') (seq_pairs prog) -> r_addr r < r_addr r' ->
+    exists i, nth_error rows i = Some r /\
+      forall j y, (i < j)%nat -> nth_error rows j = Some y ->
+                  (r_addr y = r_addr r /\ r_es y = true) \/ r_addr r' <= r_addr y.
+
+Fixpoint tie_at (r r' : row) (rows : list row) : bool :=
+  match rows with
+  | [] => false
+  | x :: t => (row_eqb x r &&
+               forallb (fun y => ((r_addr y =? r_addr r) && r_es y) || (r_addr r' <=? r_addr y)) t)
+              || tie_at r r' t
+  end.
+Definition tie_okb (prog rows : list row) : bool :=
+  forallb (fun p => negb (r_addr (fst p) <? r_addr (snd p)) || tie_at (fst p) (snd p) rows) (seq_pairs prog).
+
 Lemma tie_at_ok : forall r r' rows, tie_at r r' rows = true ->
   exists i, nth_error rows i = Some r /\
-    forall j y, (i < j)%nat -> nth_error rows j = Some y -> r_addr r' <= r_addr y.
+    forall j y, (i < j)%nat -> nth_error rows j = Some y ->
+                (r_addr y = r_addr r /\ r_es y = true) \/ r_addr r' <= r_addr y.
 Proof.
   intros r r'. induction rows as [|x t IH]; intros H; [discriminate|].
   cbn [tie_at] in H. apply orb_true_iff in H. destruct H as [H|H].
   - apply andb_true_iff in H. destruct H as [He Hall]. apply row_eqb_eq in He. subst x.
     exists 0%nat. split; [reflexivity|]. intros j y Hj Hy. destruct j as [|j]; [lia|].
-    cbn [nth_error] in Hy. rewrite forallb_forall in Hall. apply N.leb_le. apply Hall.
-    eapply nth_error_In; eauto.
+    cbn [nth_error] in Hy. rewrite forallb_forall in Hall.
+    specialize (Hall y (nth_error_In _ _ Hy)). apply orb_true_iff in Hall. destruct Hall as [Hc|Hc].
+    + apply andb_true_iff in Hc. destruct Hc as [H1 H2]. apply N.eqb_eq in H1. left. auto.
+    + apply N.leb_le in Hc. right. assumption.
   - destruct (IH H) as [i [Hi Hafter]]. exists (S i). split; [exact Hi|].
     intros j y Hj Hy. destruct j as [|j]; [lia|]. apply (Hafter j y); [lia|exact Hy].
 Qed.
@@ -315,29 +491,37 @@ Proof.
   - apply tie_at_ok. exact H.
 Qed.
 
-(* FULL STATEMENT (false, see find_place_by_pc_refuted):
-     forall prog rows (rows a sorted permutation of prog), place_of prog pc r ->
-       find_place_by_pc u pc = Ok (Some (i, r)).
-   PROVED under the tie condition: whenever the DWARF line table says row r covers pc, the
-   debugger answers with r. *)
+(* HEADLINE pc -> row: whenever the DWARF line table (program order [prog]) says row r covers pc,
+   the debugger answers r - provided r is the last non-end_sequence row of its address in the
+   sorted vector and no foreign row lies inside its interval ([tie_ok], decided by [tie_okb]).
+   An end_sequence row sharing r's address (witness W1 of the previous round) is now harmless. *)
 Theorem find_place_by_pc_partial : forall u prog pc r,
   sorted_rows (u_rows u) -> files_ok u -> tie_ok prog (u_rows u) ->
   place_of prog pc r ->
   exists i, find_place_by_pc u pc = Ok (Some (i, r)) /\ nth_error (u_rows u) i = Some r.
 Proof.
   intros u prog pc r Hs Hf Ht [r' [Hin [Hlo Hhi]]]. cbn [fst snd] in Hlo, Hhi.
+  pose proof (seq_pairs_fst _ _ _ Hin) as Hres.
   destruct (Ht r r' Hin) as [i [Hi Hafter]]; [lia|].
-  destruct (find_place_by_pc_exact u pc Hs Hf) as [[He _]|[m [x [Hm [Hx [Hgt Hle]]]]]].
+  assert (Hrin : In r (u_rows u)) by (eapply nth_error_In; eauto).
+  destruct (find_place_by_pc_exact u pc Hs Hf) as [[He _]|[m [x [Hm [Hx [Hother [Hapc Hlastne]]]]]]].
   - rewrite He in Hi. destruct i; discriminate.
-  - assert (m = i).
-    { destruct (Nat.lt_trichotomy m i) as [Hlt|[Heq|Hgt']]; [|assumption|].
-      - specialize (Hgt i r Hlt Hi). lia.
-      - specialize (Hafter m x Hgt' Hx).
-        destruct Hle as [Hle|[Hm0 _]]; [lia|]. lia. }
+  - assert (Hxa : r_addr x <= pc).
+    { destruct Hapc as [H|H]; [assumption|]. specialize (H r Hrin). lia. }
+    assert (Hra : r_addr r <= r_addr x) by (destruct (Hother r Hrin); [assumption|lia]).
+    assert (m = i).
+    { destruct (Nat.lt_trichotomy m i) as [Hlt|[Heq|Hgt]]; [|assumption|].
+      - assert (r_addr x <= r_addr r) by (eapply (sorted_rows_le (u_rows u) m i); eauto; lia).
+        assert (Heqa : r_addr r = r_addr x) by lia.
+        destruct Hlastne as [[_ Hl]|Hl].
+        + specialize (Hl i r Hlt Hi Heqa). congruence.
+        + specialize (Hl r Hrin Heqa). congruence.
+      - destruct (Hafter m x Hgt Hx) as [[Ha He]|Hge]; [|lia].
+        destruct Hlastne as [[Hne _]|Hl]; [congruence|].
+        specialize (Hl r Hrin (eq_sym Ha)). congruence. }
     subst m. exists i. rewrite Hm. split; [congruence|assumption].
 Qed.
 
-(* under the same condition the row the table designates is unique, so the answer is THE row *)
 Theorem place_of_unique_partial : forall prog rows pc r1 r2,
   sorted_rows rows -> tie_ok prog rows -> place_of prog pc r1 -> place_of prog pc r2 -> r1 = r2.
 Proof.
@@ -351,15 +535,7 @@ Proof.
   rewrite Hi in Hj. inversion Hj. reflexivity.
 Qed.
 
-(* stable insertion sort by address: what any STABLE sort of the program-order rows yields *)
-Fixpoint ins_row (x : row) (l : list row) : list row :=
-  match l with
-  | [] => [x]
-  | y :: t => if r_addr x <? r_addr y then x :: l else y :: ins_row x t
-  end.
-Definition stable_sort (l : list row) : list row := fold_left (fun acc x => ins_row x acc) l [].
-
-(* a table with two sequences, the one at the higher addresses first, a gap between them *)
+(* two sequences, the one at the higher addresses first, a gap between them, a duplicate address *)
 Definition ex_prog : list row :=
   [R 64 1 7 0 true false false false; R 68 1 8 5 true true false false; R 80 1 8 5 true false false true;
    R 16 1 3 0 true false false false; R 20 1 4 9 true true false false; R 20 1 4 12 false false false false;
@@ -368,11 +544,9 @@ Example tie_okb_example :
   sorted_rowsb (stable_sort ex_prog) = true /\ tie_okb ex_prog (stable_sort ex_prog) = true.
 Proof. vm_compute. split; reflexivity. Qed.
 
-(* REFUTATION of the full statement.  Function B = [0x20,0x30) is emitted before function
-   A = [0x10,0x20) in the line program (program order), A ends exactly where B starts.  ANY stable
-   sort by address (and Rust's sort_unstable on this 5-element vector) puts A's end_sequence row
-   after B's first row; binary_search_by_key returns the LAST of the equal keys; so pc = 0x20, the
-   first instruction of B (line 7), is answered with A's end_sequence row (line 4). *)
+(* The witness W1 of the previous round (function B = [0x20,0x30) emitted before A = [0x10,0x20) in
+   the line program; A's end_sequence row shares the address of B's first row and follows it in the
+   stably sorted vector) now satisfies the hypothesis, and pc 0x20 is answered with B's row. *)
 Definition wit_prog : list row :=
   [R 32 1 7 0 true false false false; R 36 1 8 5 true true false false; R 48 1 8 5 true false false true;
    R 16 1 3 0 true false false false; R 32 1 4 0 true false false true].
@@ -381,20 +555,15 @@ Definition wit_unit : unit :=
   U [(16, 48)] 2 wit_rows [(16, 32, 100); (32, 48, 200)]
     [F 100 (Some [97]) [(16, 32)]; F 200 (Some [98]) [(32, 48)]].
 
-Theorem find_place_by_pc_refuted :
-  exists prog u pc r,
-    u_rows u = stable_sort prog /\ sorted_rowsb (u_rows u) = true /\ files_okb u = true /\
-    place_ofb prog pc r = true /\
-    exists i x, find_place_by_pc u pc = Ok (Some (i, x)) /\ r_es x = true /\ r_line x <> r_line r.
-Proof.
-  exists wit_prog, wit_unit, 32, (R 32 1 7 0 true false false false).
-  repeat split; try (vm_compute; reflexivity).
-  exists 2%nat, (R 32 1 4 0 true false false true). repeat split; try (vm_compute; reflexivity).
-  vm_compute. discriminate.
-Qed.
+Example find_place_by_pc_w1_repaired :
+  sorted_rowsb wit_rows = true /\ files_okb wit_unit = true /\ tie_okb wit_prog wit_rows = true /\
+  nth_error wit_rows 2 = Some (R 32 1 4 0 true false false true) /\
+  find_place_by_pc wit_unit 32 = Ok (Some (1%nat, R 32 1 7 0 true false false false)) /\
+  place_ofb wit_prog 32 (R 32 1 7 0 true false false false) = true.
+Proof. vm_compute. repeat split; reflexivity. Qed.
 
-(* "no row covers pc => None" is false too: below the first row the answer is row 0, beyond the
-   end of a sequence it is the end_sequence row (the callers rely on find_unit_by_pc instead) *)
+(* STILL REFUTED: "no row covers pc => None".  Below the first row the answer is row 0, beyond the
+   end of a sequence it is the end_sequence row (callers rely on find_unit_by_pc instead). *)
 Theorem find_place_by_pc_none_refuted :
   exists u pc1 pc2, sorted_rowsb (u_rows u) = true /\ tie_okb (u_rows u) (u_rows u) = true /\
     no_placeb (u_rows u) pc1 = true /\ no_placeb (u_rows u) pc2 = true /\
@@ -417,57 +586,42 @@ Qed.
 (* find_exact_place_by_pc                                                                     *)
 (* ------------------------------------------------------------------------------------------ *)
 
-(* the backward walk from a row at address pc: it ends at the first index f of the run of rows at
-   address pc that contains p; if that run starts at index 0 the `p -= 1` underflows *)
-Lemma exact_back_ok : forall ovf u pc, files_ok u ->
-  forall p rp, nth_error (u_rows u) p = Some rp -> r_addr rp = pc ->
-  exists f rf, (f <= p)%nat /\ nth_error (u_rows u) f = Some rf /\ r_addr rf = pc /\
-    (forall j x, (f <= j <= p)%nat -> nth_error (u_rows u) j = Some x -> r_addr x = pc) /\
-    (f = 0%nat \/ exists x, nth_error (u_rows u) (f - 1) = Some x /\ r_addr x <> pc) /\
-    exact_back ovf u pc p (Some (p, rp)) =
-      (if (Nat.eqb f 0 && ovf)%bool then Panic 3 else Ok (Some (f, rf))).
+(* never a panic, whatever the vector (former witness W2) *)
+Theorem find_exact_place_by_pc_no_panic : forall u pc, files_ok u ->
+  exists r, find_exact_place_by_pc u pc = Ok r.
 Proof.
-  intros ovf u pc Hf. induction p as [|p IH]; intros rp Hp Hpc.
-  - exists 0%nat, rp. split; [lia|]. split; [assumption|]. split; [assumption|]. split.
-    + intros j x Hj Hx. assert (j = 0%nat) by lia. subst j. congruence.
-    + split; [left; reflexivity|]. cbn [exact_back Nat.eqb andb]. destruct ovf; reflexivity.
-  - cbn [exact_back]. destruct (nth_error (u_rows u) p) as [q|] eqn:Hq.
-    2:{ exfalso. apply nth_error_None in Hq. assert (nth_error (u_rows u) (S p) <> None) by congruence.
-        apply nth_error_Some in H. lia. }
-    rewrite (find_place_by_idx_some u p q Hf Hq). cbn [bind snd].
-    destruct (N.eqb_spec (r_addr q) pc) as [Heq|Hne].
-    + destruct (IH q eq_refl Heq) as [f [rf [Hfp [Hrf [Hrfpc [Hrun [Hbefore Hres]]]]]]].
-      exists f, rf. split; [lia|]. split; [assumption|]. split; [assumption|]. split.
-      * intros j x Hj Hx. destruct (Nat.eq_dec j (S p)) as [->|Hn]; [congruence|].
-        apply (Hrun j x); [lia|assumption].
-      * split; assumption.
-    + exists (S p), rp. split; [lia|]. split; [assumption|]. split; [assumption|]. split.
-      * intros j x Hj Hx. assert (j = S p) by lia. subst j. congruence.
-      * split.
-        -- right. exists q. replace (S p - 1)%nat with p by lia. split; assumption.
-        -- reflexivity.
+  intros u pc Hf. unfold find_exact_place_by_pc.
+  destruct (bsearch_total (map r_addr (u_rows u)) pc) as [r [Hr Hb]]. rewrite Hr. cbn [bind].
+  destruct r as [p|p]; [|eexists; reflexivity].
+  destruct (nth_error (u_rows u) (p - count_run pc (rev (firstn p (u_rows u))))) as [x|] eqn:Hx.
+  - rewrite (find_place_by_idx_some u _ x Hf Hx). eexists; reflexivity.
+  - rewrite (find_place_by_idx_none u _ Hx). eexists; reflexivity.
 Qed.
 
 (* EXACT characterisation on a sorted vector: None iff no row has address pc; otherwise the FIRST
-   row with address pc - except that with overflow checks (dev/test profile) the call panics when
-   that first row is row 0 of the unit *)
-Theorem find_exact_place_by_pc_exact : forall ovf u pc, sorted_rows (u_rows u) -> files_ok u ->
-  ((forall x, In x (u_rows u) -> r_addr x <> pc) /\ find_exact_place_by_pc ovf u pc = Ok None) \/
+   row with address pc (row 0 included) *)
+Theorem find_exact_place_by_pc_exact : forall u pc, sorted_rows (u_rows u) -> files_ok u ->
+  ((forall x, In x (u_rows u) -> r_addr x <> pc) /\ find_exact_place_by_pc u pc = Ok None) \/
   exists f rf, nth_error (u_rows u) f = Some rf /\ r_addr rf = pc /\
     (forall j x, (j < f)%nat -> nth_error (u_rows u) j = Some x -> r_addr x < pc) /\
-    find_exact_place_by_pc ovf u pc = (if (Nat.eqb f 0 && ovf)%bool then Panic 3 else Ok (Some (f, rf))).
+    find_exact_place_by_pc u pc = Ok (Some (f, rf)).
 Proof.
-  intros ovf u pc Hs Hf. unfold find_exact_place_by_pc.
+  intros u pc Hs Hf. unfold find_exact_place_by_pc.
   destruct (bsearch_ok _ pc Hs) as [r [Hr Hp]]. rewrite Hr. cbn [bind].
   destruct r as [p|p]; cbn [bs_post] in Hp.
   - right. destruct Hp as [Hp _]. apply nth_map_some in Hp. destruct Hp as [rp [Hrp Hpc]].
-    rewrite (find_place_by_idx_some u p rp Hf Hrp). cbn [bind].
-    destruct (exact_back_ok ovf u pc Hf p rp Hrp Hpc) as [f [rf [Hfp [Hrf [Hrfpc [Hrun [Hbefore Hres]]]]]]].
-    exists f, rf. split; [assumption|]. split; [assumption|]. split; [|assumption].
-    intros j x Hj Hx. destruct Hbefore as [H0|[y [Hy Hne]]]; [lia|].
-    assert (r_addr x <= r_addr y) by (eapply (sorted_rows_le (u_rows u) j (f - 1)); eauto; lia).
-    assert (r_addr y <= r_addr rf) by (eapply (sorted_rows_le (u_rows u) (f - 1) f); eauto; lia).
-    lia.
+    destruct (run_facts (u_rows u) p rp Hrp) as [Hfpl [_ [Hrun [Hmin _]]]]. rewrite Hpc in *.
+    set (f := (p - count_run pc (rev (firstn p (u_rows u))))%nat) in *.
+    destruct (nth_error (u_rows u) f) as [rf|] eqn:Hrf.
+    2:{ exfalso. apply nth_error_None in Hrf. assert (p < length (u_rows u))%nat by (apply nth_error_Some; congruence). lia. }
+    exists f, rf. split; [exact Hrf|]. split; [apply (Hrun f rf); [lia|assumption]|]. split.
+    + intros j x Hj Hx.
+      assert (r_addr x <= r_addr rp) by (eapply (sorted_rows_le (u_rows u) j p); eauto; lia).
+      destruct (N.eq_dec (r_addr x) pc) as [Heq|Hne]; [|lia]. exfalso.
+      assert (f <= j)%nat; [|lia]. apply Hmin; [lia|]. intros k y Hk Hy.
+      assert (r_addr x <= r_addr y) by (eapply (sorted_rows_le (u_rows u) j k); eauto; lia).
+      assert (r_addr y <= r_addr rp) by (eapply (sorted_rows_le (u_rows u) k p); eauto; lia). lia.
+    + apply find_place_by_idx_some; assumption.
   - left. destruct Hp as [_ [Hlt Hgt]]. split; [|reflexivity].
     intros x Hx. apply In_nth_error in Hx. destruct Hx as [j Hj].
     assert (Hk : nth_error (map r_addr (u_rows u)) j = Some (r_addr x)) by (rewrite nth_map, Hj; reflexivity).
@@ -476,31 +630,18 @@ Proof.
     + specialize (Hgt j _ Hjp Hk). lia.
 Qed.
 
-(* the panic: asking for the exact place of the lowest address of a unit's line table *)
-Theorem find_exact_place_by_pc_row0_panics : forall u r0 t,
+(* the former panic: the exact place of the lowest address of a unit's line table is row 0 *)
+Theorem find_exact_place_by_pc_row0 : forall u r0 t,
   sorted_rows (u_rows u) -> files_ok u -> u_rows u = r0 :: t ->
-  find_exact_place_by_pc true u (r_addr r0) = Panic 3 /\
-  find_exact_place_by_pc false u (r_addr r0) = Ok (Some (0%nat, r0)).
+  find_exact_place_by_pc u (r_addr r0) = Ok (Some (0%nat, r0)).
 Proof.
   intros u r0 t Hs Hf E.
   assert (H0 : nth_error (u_rows u) 0 = Some r0) by (rewrite E; reflexivity).
-  split.
-  - destruct (find_exact_place_by_pc_exact true u (r_addr r0) Hs Hf) as [[Hno _]|[f [rf [Hrf [Hpc [Hb Hres]]]]]].
-    + exfalso. apply (Hno r0); [rewrite E; left; reflexivity|reflexivity].
-    + destruct f as [|f]; [rewrite Hres; reflexivity|].
-      specialize (Hb 0%nat r0 ltac:(lia) H0). lia.
-  - destruct (find_exact_place_by_pc_exact false u (r_addr r0) Hs Hf) as [[Hno _]|[f [rf [Hrf [Hpc [Hb Hres]]]]]].
-    + exfalso. apply (Hno r0); [rewrite E; left; reflexivity|reflexivity].
-    + destruct f as [|f].
-      * rewrite Hres. cbn. congruence.
-      * specialize (Hb 0%nat r0 ltac:(lia) H0). lia.
+  destruct (find_exact_place_by_pc_exact u (r_addr r0) Hs Hf) as [[Hno _]|[f [rf [Hrf [Hpc [Hb Hres]]]]]].
+  - exfalso. apply (Hno r0); [rewrite E; left; reflexivity|reflexivity].
+  - destruct f as [|f]; [rewrite Hres; congruence|].
+    specialize (Hb 0%nat r0 ltac:(lia) H0). lia.
 Qed.
-
-Theorem find_exact_refuted :
-  exists u pc, sorted_rowsb (u_rows u) = true /\ files_okb u = true /\
-               existsb (fun r => r_addr r =? pc) (u_rows u) = true /\
-               find_exact_place_by_pc true u pc = Panic 3.
-Proof. exists wit_unit, 16. vm_compute. repeat split; reflexivity. Qed.
 
 (* ------------------------------------------------------------------------------------------ *)
 (* pc -> unit                                                                                 *)
@@ -806,35 +947,127 @@ Proof.
 Qed.
 
 (* ------------------------------------------------------------------------------------------ *)
-(* function -> breakpoint address (prolog_end_place)                                          *)
+(* function -> breakpoint address (prolog_end_place, bounded walk since 6aa083d)              *)
 (* ------------------------------------------------------------------------------------------ *)
 
-Lemma prolog_walk_ok : forall u, files_ok u -> forall fuel i r,
-  nth_error (u_rows u) i = Some r -> (length (u_rows u) - i <= fuel)%nat ->
-  exists j rj, prolog_walk u fuel (i, r) = Ok (j, rj) /\ (i <= j)%nat /\ nth_error (u_rows u) j = Some rj /\
-    (forall k x, (i <= k < j)%nat -> nth_error (u_rows u) k = Some x -> r_pe x = false) /\
-    (r_pe rj = true \/ (r_pe rj = false /\ S j = length (u_rows u))).
+Definition in_fn (g : fn_info) (x : row) : bool := addr_in_fn g (r_addr x).
+
+Lemma mk_place_files_ok : forall u i r, files_ok u -> In r (u_rows u) -> mk_place u i r = Ok (i, r).
 Proof.
-  intros u Hf. induction fuel as [|fuel IH]; intros i r Hi Hfuel.
-  - assert (i < length (u_rows u))%nat by (apply nth_error_Some; congruence). lia.
-  - assert (Hil : (i < length (u_rows u))%nat) by (apply nth_error_Some; congruence).
-    cbn [prolog_walk fst snd]. destruct (r_pe r) eqn:Hpe.
-    + exists i, r. split; [reflexivity|]. split; [lia|]. split; [assumption|]. split; [intros; lia|]. left. assumption.
-    + destruct (nth_error (u_rows u) (S i)) as [q|] eqn:Hq.
-      * rewrite (find_place_by_idx_some u (S i) q Hf Hq). cbn [bind].
-        destruct (IH (S i) q Hq) as [j [rj [Hw [Hij [Hj [Hno Hend]]]]]]; [lia|].
-        exists j, rj. split; [assumption|]. split; [lia|]. split; [assumption|]. split; [|assumption].
-        intros k x Hk Hx. destruct (Nat.eq_dec k i) as [->|Hn]; [congruence|]. apply (Hno k x); [lia|assumption].
-      * rewrite (find_place_by_idx_none u (S i) Hq). cbn [bind].
-        exists i, r. split; [reflexivity|]. split; [lia|]. split; [assumption|]. split; [intros; lia|].
-        right. split; [assumption|]. apply nth_error_None in Hq. lia.
+  intros u i r Hf Hr. unfold mk_place. specialize (Hf r Hr).
+  destruct (N.ltb_spec (r_file r) (u_nfiles u)); [reflexivity|lia].
+Qed.
+
+(* next_in_function: either the next non-end_sequence row inside the function, all rows skipped
+   being end_sequence rows inside the function, or None because the walk met the end of the table or
+   a row outside the function at index s *)
+Lemma next_in_fn_l_spec : forall u g, files_ok u -> forall l idx,
+  (forall n, nth_error l n = nth_error (u_rows u) (idx + n)) ->
+  (exists j x, next_in_fn_l u g idx l = Ok (Some (j, x)) /\ (idx <= j)%nat /\
+     nth_error (u_rows u) j = Some x /\ r_es x = false /\ in_fn g x = true /\
+     forall m y, (idx <= m < j)%nat -> nth_error (u_rows u) m = Some y -> r_es y = true /\ in_fn g y = true) \/
+  (exists s, next_in_fn_l u g idx l = Ok None /\ (idx <= s)%nat /\
+     (forall m y, (idx <= m < s)%nat -> nth_error (u_rows u) m = Some y -> r_es y = true /\ in_fn g y = true) /\
+     (forall y, nth_error (u_rows u) s = Some y -> in_fn g y = false)).
+Proof.
+  intros u g Hf. induction l as [|r t IH]; intros idx Hl.
+  - right. exists idx. split; [reflexivity|]. split; [lia|]. split; [intros; lia|].
+    intros y Hy. specialize (Hl 0%nat). rewrite Nat.add_0_r in Hl. cbn in Hl. congruence.
+  - assert (Hr : nth_error (u_rows u) idx = Some r).
+    { specialize (Hl 0%nat). rewrite Nat.add_0_r in Hl. cbn in Hl. congruence. }
+    cbn [next_in_fn_l]. rewrite (mk_place_files_ok u idx r Hf (nth_error_In _ _ Hr)). cbn [bind].
+    fold (in_fn g r). destruct (r_es r) eqn:Hes; destruct (in_fn g r) eqn:Hin; cbn [andb negb].
+    + destruct (IH (S idx)) as [[j [x [H1 [H2 [H3 [H4 [H5 H6]]]]]]]|[s [H1 [H2 [H3 H4]]]]].
+      { intros n. specialize (Hl (S n)). cbn [nth_error] in Hl. rewrite Hl. f_equal. lia. }
+      * left. exists j, x. split; [assumption|]. split; [lia|]. split; [assumption|]. split; [assumption|].
+        split; [assumption|]. intros m y Hm Hy. destruct (Nat.eq_dec m idx) as [->|Hne].
+        -- assert (y = r) by congruence. subst y. auto.
+        -- apply (H6 m y); [lia|assumption].
+      * right. exists s. split; [assumption|]. split; [lia|]. split; [|assumption].
+        intros m y Hm Hy. destruct (Nat.eq_dec m idx) as [->|Hne].
+        -- assert (y = r) by congruence. subst y. auto.
+        -- apply (H3 m y); [lia|assumption].
+    + right. exists idx. split; [reflexivity|]. split; [lia|]. split; [intros; lia|].
+      intros y Hy. assert (y = r) by congruence. subst y. assumption.
+    + left. exists idx, r. split; [reflexivity|]. split; [lia|]. split; [assumption|]. split; [assumption|].
+      split; [assumption|]. intros; lia.
+    + right. exists idx. split; [reflexivity|]. split; [lia|]. split; [intros; lia|].
+      intros y Hy. assert (y = r) by congruence. subst y. assumption.
+Qed.
+
+Lemma next_in_fn_spec : forall u g, files_ok u -> forall k xk,
+  (exists j x, next_in_fn u g (k, xk) = Ok (Some (j, x)) /\ (k < j)%nat /\
+     nth_error (u_rows u) j = Some x /\ r_es x = false /\ in_fn g x = true /\
+     forall m y, (k < m < j)%nat -> nth_error (u_rows u) m = Some y -> r_es y = true /\ in_fn g y = true) \/
+  (exists s, next_in_fn u g (k, xk) = Ok None /\ (k < s)%nat /\
+     (forall m y, (k < m < s)%nat -> nth_error (u_rows u) m = Some y -> r_es y = true /\ in_fn g y = true) /\
+     (forall y, nth_error (u_rows u) s = Some y -> in_fn g y = false)).
+Proof.
+  intros u g Hf k xk. unfold next_in_fn. cbn [fst].
+  destruct (next_in_fn_l_spec u g Hf (skipn (S k) (u_rows u)) (S k)) as [[j [x [H1 [H2 [H3 [H4 [H5 H6]]]]]]]|[s [H1 [H2 [H3 H4]]]]].
+  { intros n. apply nth_skipn. }
+  - left. exists j, x. split; [assumption|]. split; [lia|]. split; [assumption|]. split; [assumption|].
+    split; [assumption|]. intros m y Hm Hy. apply (H6 m y); [lia|assumption].
+  - right. exists s. split; [assumption|]. split; [lia|]. split; [|assumption].
+    intros m y Hm Hy. apply (H3 m y); [lia|assumption].
+Qed.
+
+(* [reach u g i k]: from the start row i the rows up to k are all inside the function's ranges *)
+Definition reach (u : unit) (g : fn_info) (i k : nat) : Prop :=
+  (i <= k)%nat /\ forall m y, (i <= m <= k)%nat -> nth_error (u_rows u) m = Some y -> in_fn g y = true.
+
+Lemma prolog_walk_ok : forall u g i ri, files_ok u ->
+  nth_error (u_rows u) i = Some ri -> r_es ri = false -> in_fn g ri = true ->
+  forall fuel k xk,
+  nth_error (u_rows u) k = Some xk -> r_es xk = false -> reach u g i k ->
+  (forall m y, (i <= m < k)%nat -> nth_error (u_rows u) m = Some y -> r_es y = false -> r_pe y = false) ->
+  (length (u_rows u) - k <= fuel)%nat ->
+  exists j rj, prolog_walk u g (i, ri) fuel (k, xk) = Ok (j, rj) /\
+    nth_error (u_rows u) j = Some rj /\ r_es rj = false /\ reach u g i j /\
+    (r_pe rj = true \/
+     forall m y, reach u g i m -> nth_error (u_rows u) m = Some y -> r_es y = false -> r_pe y = false).
+Proof.
+  intros u g i ri Hf Hi Hies Hiin. induction fuel as [|fuel IH]; intros k xk Hk Hkes Hreach Hnope Hfuel.
+  - assert (k < length (u_rows u))%nat by (apply nth_error_Some; congruence). lia.
+  - assert (Hkl : (k < length (u_rows u))%nat) by (apply nth_error_Some; congruence).
+    cbn [prolog_walk snd]. destruct (r_pe xk) eqn:Hpe.
+    + exists k, xk. split; [reflexivity|]. split; [assumption|]. split; [assumption|]. split; [assumption|]. left. assumption.
+    + destruct Hreach as [Hik Hin].
+      destruct (next_in_fn_spec u g Hf k xk) as [[j [x [H1 [H2 [H3 [H4 [H5 H6]]]]]]]|[s [H1 [H2 [H3 H4]]]]].
+      * rewrite H1. cbn [bind]. apply IH; try assumption; try lia.
+        -- split; [lia|]. intros m y Hm Hy. destruct (Nat.le_gt_cases m k) as [Hle|Hgt]; [apply (Hin m y); [lia|assumption]|].
+           destruct (Nat.eq_dec m j) as [->|Hne]; [congruence|]. apply (H6 m y); [lia|assumption].
+        -- intros m y Hm Hy Hyes. destruct (Nat.lt_trichotomy m k) as [Hlt|[->|Hgt]].
+           ++ apply (Hnope m y); [lia|assumption|assumption].
+           ++ congruence.
+           ++ destruct (H6 m y) as [He _]; [lia|assumption|]. congruence.
+      * rewrite H1. cbn [bind].
+        assert (Hnone : forall m y, reach u g i m -> nth_error (u_rows u) m = Some y -> r_es y = false -> r_pe y = false).
+        { intros m y [Him Hmin] Hy Hyes. destruct (Nat.lt_trichotomy m k) as [Hlt|[->|Hgt]].
+          - apply (Hnope m y); [lia|assumption|assumption].
+          - congruence.
+          - destruct (Nat.lt_ge_cases m s) as [Hms|Hms].
+            + destruct (H3 m y) as [He _]; [lia|assumption|]. congruence.
+            + exfalso. assert (s < length (u_rows u))%nat.
+              { assert (m < length (u_rows u))%nat by (apply nth_error_Some; congruence). lia. }
+              destruct (nth_error (u_rows u) s) as [ys|] eqn:Hys; [|apply nth_error_None in Hys; lia].
+              specialize (H4 ys eq_refl). specialize (Hmin s ys ltac:(lia) Hys). congruence. }
+        destruct (next_in_fn_spec u g Hf i ri) as [[j [x [G1 [G2 [G3 [G4 [G5 G6]]]]]]]|[s' [G1 _]]].
+        -- rewrite G1. cbn [bind]. exists j, x. split; [reflexivity|]. split; [assumption|]. split; [assumption|].
+           split; [|right; assumption].
+           split; [lia|]. intros m y Hm Hy. destruct (Nat.eq_dec m i) as [->|Hne]; [congruence|].
+           destruct (Nat.eq_dec m j) as [->|Hne']; [congruence|]. apply (G6 m y); [lia|assumption].
+        -- rewrite G1. cbn [bind]. exists i, ri. split; [reflexivity|]. split; [assumption|]. split; [assumption|].
+           split; [|right; assumption].
+           split; [lia|]. intros m y Hm Hy. assert (m = i) by lia. subst m. congruence.
 Qed.
 
 Lemma find_place_by_pc_nth : forall u pc i r, find_place_by_pc u pc = Ok (Some (i, r)) ->
   nth_error (u_rows u) i = Some r.
 Proof.
-  intros u pc i r H. unfold find_place_by_pc in H. inv_bind H. unfold find_place_by_idx in H.
-  destruct (nth_error (u_rows u) a) as [x|] eqn:Hx; [|discriminate]. unfold mk_place in H.
+  intros u pc i r H. unfold find_place_by_pc in H. inv_bind H. destruct a as [pos|]; [|discriminate].
+  unfold find_place_by_idx in H.
+  destruct (nth_error (u_rows u) pos) as [x|] eqn:Hx; [|discriminate]. unfold mk_place in H.
   destruct (r_file x <? u_nfiles u); cbn [bind] in H; [|discriminate]. inversion H; subst. assumption.
 Qed.
 
@@ -849,85 +1082,105 @@ Proof.
   exists v. split; [assumption|]. eapply find_place_by_pc_nth; eauto.
 Qed.
 
-(* EXACT characterisation of prolog_end_place: from the row found for the function's lowest
-   address it returns the first prologue_end row at or after it IN THE WHOLE UNIT, and the last row
-   of the unit's line table when there is none.  Never OutOfFuel. *)
-Theorem prolog_end_place_exact : forall units f ui i r,
+(* HEADLINE function -> address.  If the place found for the function's lowest address is a
+   non-end_sequence row inside the function (true whenever the line table has a row at the function's
+   low pc), then `break f` resolves to a non-end_sequence row INSIDE the function's ranges, reached from
+   the start row through rows of the function only; it is a prologue_end row, or else no
+   non-end_sequence row reachable that way is a prologue_end row.  Never OutOfFuel / panic.
+   (Former witnesses W5, W6.) *)
+Theorem prolog_end_place_inside : forall units f ui i r,
   (forall u, In u units -> files_ok u) ->
-  prolog_start_place units f = Ok (ui, (i, r)) ->
+  prolog_start_place units f = Ok (ui, (i, r)) -> r_es r = false -> in_fn f r = true ->
   exists u j rj, nth_error units ui = Some u /\ nth_error (u_rows u) i = Some r /\
-    prolog_end_place units f = Ok (ui, (j, rj)) /\ (i <= j)%nat /\ nth_error (u_rows u) j = Some rj /\
-    (forall k x, (i <= k < j)%nat -> nth_error (u_rows u) k = Some x -> r_pe x = false) /\
-    (r_pe rj = true \/ (r_pe rj = false /\ S j = length (u_rows u))).
+    prolog_end_place units f = Ok (ui, (j, rj)) /\ nth_error (u_rows u) j = Some rj /\
+    r_es rj = false /\ in_fn f rj = true /\ reach u f i j /\
+    (r_pe rj = true \/
+     forall m y, reach u f i m -> nth_error (u_rows u) m = Some y -> r_es y = false -> r_pe y = false).
 Proof.
-  intros units f ui i r Hf Hs. destruct (prolog_start_place_nth units f ui i r Hs) as [u [Hu Hi]].
-  destruct (prolog_walk_ok u (Hf u (nth_error_In _ _ Hu)) (length (u_rows u)) i r Hi) as [j [rj [Hw Hrest]]]; [lia|].
-  exists u, j, rj. split; [assumption|]. split; [assumption|]. split; [|exact Hrest].
-  unfold prolog_end_place. rewrite Hs. cbn [bind fst snd]. rewrite Hu, Hw. reflexivity.
+  intros units f ui i r Hf Hs Hes Hin. destruct (prolog_start_place_nth units f ui i r Hs) as [u [Hu Hi]].
+  destruct (prolog_walk_ok u f i r (Hf u (nth_error_In _ _ Hu)) Hi Hes Hin (length (u_rows u)) i r Hi Hes)
+    as [j [rj [Hw [Hj [Hjes [Hreach Hpe]]]]]].
+  - split; [lia|]. intros m y Hm Hy. assert (m = i) by lia. subst m. congruence.
+  - intros; lia.
+  - lia.
+  - exists u, j, rj. split; [assumption|]. split; [assumption|]. split.
+    + unfold prolog_end_place. rewrite Hs. cbn [bind fst snd]. rewrite Hu, Hw. reflexivity.
+    + split; [assumption|]. split; [assumption|]. split; [|split; assumption].
+      destruct Hreach as [Hij Hall]. apply (Hall j rj); [lia|assumption].
 Qed.
 
-Lemma find_skipn_first : forall {A} (p : A -> bool) l i j x,
-  (i <= j)%nat -> nth_error l j = Some x -> p x = true ->
-  (forall k y, (i <= k < j)%nat -> nth_error l k = Some y -> p y = false) ->
-  find p (skipn i l) = Some x.
-Proof.
-  intros A p. induction l as [|a l IH]; intros i j x Hij Hj Hp Hno; [destruct j; discriminate|].
-  destruct i as [|i].
-  - cbn [skipn find]. destruct j as [|j].
-    + cbn [nth_error] in Hj. inversion Hj; subst. rewrite Hp. reflexivity.
-    + rewrite (Hno 0%nat a) by (try lia; reflexivity).
-      change (find p l) with (find p (skipn 0 l)). apply (IH 0%nat j x); [lia|exact Hj|exact Hp|].
-      intros k y Hk Hy. apply (Hno (S k) y); [lia|exact Hy].
-  - destruct j as [|j]; [lia|]. cbn [skipn]. apply (IH i j x); [lia|exact Hj|exact Hp|].
-    intros k y Hk Hy. apply (Hno (S k) y); [lia|exact Hy].
-Qed.
-
-Lemma find_skipn_none : forall {A} (p : A -> bool) l i,
-  (forall k y, (i <= k)%nat -> nth_error l k = Some y -> p y = false) -> find p (skipn i l) = None.
-Proof.
-  intros A p l i H. destruct (find p (skipn i l)) as [x|] eqn:E; [|reflexivity].
-  apply find_some in E. destruct E as [Hin Hp]. apply In_nth_error in Hin. destruct Hin as [k Hk].
-  assert (Hk' : nth_error l (i + k) = Some x).
-  { clear - Hk. revert i k Hk. induction l as [|a l IH]; intros [|i] k Hk; cbn [skipn] in Hk.
-    - destruct k; discriminate.
-    - destruct k; discriminate.
-    - exact Hk.
-    - cbn [Nat.add nth_error]. apply IH. exact Hk. }
-  rewrite (H (i + k)%nat x) in Hp; [discriminate|lia|assumption].
-Qed.
-
-(* hypothesis of the partial theorem, decidable: the first prologue_end row at or after the start
-   row exists, is not an end_sequence row and lies inside the function *)
-Definition pe_in_fnb (u : unit) (f : fn_info) (i : nat) : bool :=
-  match find r_pe (skipn i (u_rows u)) with
-  | Some x => addr_in_fn f (r_addr x) && negb (r_es x)
-  | None => false
+(* decidable hypothesis under which the answer meets [fn_bp_ok]: every prologue_end row of the
+   function (non-end_sequence, inside its ranges) has an index >= i and is reachable from row i
+   through rows inside the function's ranges (true for a function whose rows are contiguous in the
+   sorted vector) *)
+Fixpoint count_in (g : fn_info) (l : list row) : nat :=
+  match l with
+  | x :: t => if in_fn g x then S (count_in g t) else O
+  | [] => O
   end.
+Fixpoint pe_idx_ok (g : fn_info) (lo hi : nat) (k : nat) (l : list row) : bool :=
+  match l with
+  | [] => true
+  | x :: t => (negb (r_pe x && negb (r_es x) && in_fn g x) || ((lo <=? k)%nat && (k <? hi)%nat))
+              && pe_idx_ok g lo hi (S k) t
+  end.
+Definition pe_reach_okb (u : unit) (g : fn_info) (i : nat) : bool :=
+  pe_idx_ok g i (i + count_in g (skipn i (u_rows u)))%nat 0 (u_rows u).
 
-(* FULL STATEMENT (false, see the two fn_bp_refuted theorems): the place returned for `break f` satisfies [fn_bp_ok].
-   PROVED when the first prologue_end row at/after the function's first row belongs to it. *)
+Lemma count_in_spec : forall g l k x, (k < count_in g l)%nat -> nth_error l k = Some x -> in_fn g x = true.
+Proof.
+  intros g. induction l as [|r t IH]; intros k x Hk Hx; cbn [count_in] in Hk; [lia|].
+  destruct (in_fn g r) eqn:Hr; [|lia]. destruct k as [|k]; cbn [nth_error] in Hx; [congruence|].
+  apply (IH k x); [lia|assumption].
+Qed.
+
+Lemma pe_idx_ok_spec : forall g lo hi l k0, pe_idx_ok g lo hi k0 l = true ->
+  forall n x, nth_error l n = Some x -> r_pe x = true -> r_es x = false -> in_fn g x = true ->
+  (lo <= k0 + n < hi)%nat.
+Proof.
+  intros g lo hi. induction l as [|r t IH]; intros k0 H n x Hn Hpe Hes Hin; [destruct n; discriminate|].
+  cbn [pe_idx_ok] in H. apply andb_true_iff in H. destruct H as [H1 H2]. destruct n as [|n]; cbn [nth_error] in Hn.
+  - inversion Hn; subst. rewrite Hpe, Hes, Hin in H1. cbn in H1. apply andb_true_iff in H1. destruct H1 as [Ha Hb].
+    apply Nat.leb_le in Ha. apply Nat.ltb_lt in Hb. lia.
+  - specialize (IH (S k0) H2 n x Hn Hpe Hes Hin). lia.
+Qed.
+
+Lemma pe_reach_okb_ok : forall u g i, pe_reach_okb u g i = true ->
+  forall k x, nth_error (u_rows u) k = Some x -> r_pe x = true -> r_es x = false -> in_fn g x = true -> reach u g i k.
+Proof.
+  intros u g i H k x Hk Hpe Hes Hin. unfold pe_reach_okb in H.
+  pose proof (pe_idx_ok_spec _ _ _ _ _ H k x Hk Hpe Hes Hin) as Hb. cbn [Nat.add] in Hb.
+  split; [lia|]. intros m y Hm Hy.
+  apply (count_in_spec g (skipn i (u_rows u)) (m - i)%nat y); [lia|].
+  rewrite nth_skipn. replace (i + (m - i))%nat with m by lia. assumption.
+Qed.
+
+(* FULL STATEMENT: the answer satisfies [fn_bp_ok] for every function - false for a function whose
+   prologue_end row is separated from its first row by rows of another function (see
+   fn_bp_split_ranges_refuted).  PROVED under [pe_reach_okb]. *)
 Theorem fn_bp_partial : forall units f ui i r u,
   (forall v, In v units -> files_ok v) ->
   prolog_start_place units f = Ok (ui, (i, r)) -> nth_error units ui = Some u ->
-  pe_in_fnb u f i = true ->
+  r_es r = false -> in_fn f r = true -> pe_reach_okb u f i = true ->
   exists j rj, prolog_end_place units f = Ok (ui, (j, rj)) /\ nth_error (u_rows u) j = Some rj /\
-    r_pe rj = true /\ r_es rj = false /\ addr_in_fn f (r_addr rj) = true.
+               fn_bp_ok u f rj = true.
 Proof.
-  intros units f ui i r u Hf Hs Hu Hb.
-  destruct (prolog_end_place_exact units f ui i r Hf Hs) as [u' [j [rj [Hu' [Hi [Hp [Hij [Hj [Hno Hend]]]]]]]]].
+  intros units f ui i r u Hf Hs Hu Hes Hin Hb.
+  destruct (prolog_end_place_inside units f ui i r Hf Hs Hes Hin)
+    as [u' [j [rj [Hu' [Hi [Hp [Hj [Hjes [Hjin [Hreach Hpe]]]]]]]]]].
   assert (u' = u) by congruence. subst u'. exists j, rj. split; [assumption|]. split; [assumption|].
-  unfold pe_in_fnb in Hb. destruct Hend as [Hpe|[Hpe Hlast]].
-  - rewrite (find_skipn_first r_pe (u_rows u) i j rj Hij Hj Hpe Hno) in Hb.
-    apply andb_true_iff in Hb. destruct Hb as [H1 H2]. apply negb_true_iff in H2. auto.
-  - rewrite find_skipn_none in Hb; [discriminate|].
-    intros k y Hk Hy. destruct (Nat.lt_ge_cases k j) as [Hlt|Hge]; [apply (Hno k y); [lia|assumption]|].
-    assert (k < length (u_rows u))%nat by (apply nth_error_Some; congruence).
-    assert (k = j) by lia. subst k. congruence.
+  unfold fn_bp_ok. fold (in_fn f rj). rewrite Hjin, Hjes. cbn [andb negb].
+  destruct (fn_pe_rows u f) as [|x t] eqn:Hrows; [reflexivity|].
+  destruct Hpe as [Hpe|Hnone]; [assumption|]. exfalso.
+  assert (Hx : In x (fn_pe_rows u f)) by (rewrite Hrows; left; reflexivity).
+  unfold fn_pe_rows in Hx. apply filter_In in Hx. destruct Hx as [Hxin Hx].
+  apply andb_true_iff in Hx. destruct Hx as [Hx Hx3]. apply andb_true_iff in Hx. destruct Hx as [Hx1 Hx2].
+  apply negb_true_iff in Hx2. apply In_nth_error in Hxin. destruct Hxin as [k Hk].
+  pose proof (pe_reach_okb_ok u f i Hb k x Hk Hx1 Hx2 Hx3) as Hr.
+  rewrite (Hnone k x Hr Hk Hx2) in Hx1. discriminate.
 Qed.
 
-(* REFUTATION 1: a line table without prologue_end flags (C compiled by gcc, assembly).  Two
-   functions f = [0x10,0x20), g = [0x20,0x30).  `break f` resolves to the LAST row of the unit's table:
-   the end_sequence row at 0x30, one past the end of g. *)
+(* the former witnesses, repaired *)
 Definition gcc_unit : unit :=
   U [(16, 48)] 2
     [R 16 1 3 0 true false false false; R 20 1 4 0 true false false false;
@@ -935,36 +1188,52 @@ Definition gcc_unit : unit :=
     [(16, 32, 100); (32, 48, 200)]
     [F 100 (Some [102]) [(16, 32)]; F 200 (Some [103]) [(32, 48)]].
 
-Theorem fn_bp_refuted_no_prologue_end :
-  exists u f, sorted_rowsb (u_rows u) = true /\ files_okb u = true /\ fn_lookup u (f_off f) = Some f /\
-    exists j rj, prolog_end_place [u] f = Ok (0%nat, (j, rj)) /\
-                 r_addr rj = 48 /\ r_es rj = true /\ addr_in_fn f (r_addr rj) = false /\ fn_bp_ok u f rj = false.
-Proof.
-  exists gcc_unit, (F 100 (Some [102]) [(16, 32)]). repeat split; try (vm_compute; reflexivity).
-  exists 4%nat, (R 48 1 9 0 true false false true). vm_compute. repeat split; reflexivity.
-Qed.
-
-(* REFUTATION 2: f has no prologue_end row but a later function has one: `break f` resolves to the
-   prologue end of the OTHER function (wit_unit: f = "a" = [0x10,0x20) gets 0x24, inside "b") *)
-Theorem fn_bp_refuted_next_function :
-  exists u f g, sorted_rowsb (u_rows u) = true /\ files_okb u = true /\
-    fn_lookup u (f_off f) = Some f /\ fn_lookup u (f_off g) = Some g /\ f_off f <> f_off g /\
-    exists j rj, prolog_end_place [u] f = Ok (0%nat, (j, rj)) /\
-                 addr_in_fn f (r_addr rj) = false /\ addr_in_fn g (r_addr rj) = true.
-Proof.
-  exists wit_unit, (F 100 (Some [97]) [(16, 32)]), (F 200 (Some [98]) [(32, 48)]).
-  repeat split; try (vm_compute; reflexivity); try (vm_compute; discriminate).
-  exists 3%nat, (R 36 1 8 5 true true false false). vm_compute. repeat split; reflexivity.
-Qed.
-
-Example fn_bp_partial_example :
-  prolog_start_place [wit_unit] (F 200 (Some [98]) [(32, 48)]) = Ok (0%nat, (2%nat, R 32 1 4 0 true false false true)) /\
-  pe_in_fnb wit_unit (F 200 (Some [98]) [(32, 48)]) 2 = true /\
-  prolog_end_place [wit_unit] (F 200 (Some [98]) [(32, 48)]) = Ok (0%nat, (3%nat, R 36 1 8 5 true true false false)).
+Example fn_bp_w5_w6_repaired :
+  prolog_end_place [gcc_unit] (F 100 (Some [102]) [(16, 32)]) = Ok (0%nat, (1%nat, R 20 1 4 0 true false false false)) /\
+  prolog_end_place [gcc_unit] (F 200 (Some [103]) [(32, 48)]) = Ok (0%nat, (3%nat, R 36 1 9 0 true false false false)) /\
+  prolog_end_place [wit_unit] (F 100 (Some [97]) [(16, 32)]) = Ok (0%nat, (0%nat, R 16 1 3 0 true false false false)) /\
+  prolog_end_place [wit_unit] (F 200 (Some [98]) [(32, 48)]) = Ok (0%nat, (3%nat, R 36 1 8 5 true true false false)) /\
+  pe_reach_okb wit_unit (F 200 (Some [98]) [(32, 48)]) 1 = true /\
+  fn_bp_ok gcc_unit (F 100 (Some [102]) [(16, 32)]) (R 20 1 4 0 true false false false) = true.
 Proof. vm_compute. repeat split; reflexivity. Qed.
 
+(* REMAINING refutation 1 (contrived): a function with two ranges whose prologue_end row lies in
+   the second one, rows of another function in between: the walk stops at the foreign row and the
+   second row of the function is answered although the function has a prologue_end row. *)
+Theorem fn_bp_split_ranges_refuted :
+  exists u f, sorted_rowsb (u_rows u) = true /\ files_okb u = true /\ fn_lookup u (f_off f) = Some f /\
+    exists j rj, prolog_end_place [u] f = Ok (0%nat, (j, rj)) /\ in_fn f rj = true /\ r_es rj = false /\
+                 fn_pe_rows u f <> [] /\ r_pe rj = false /\ fn_bp_ok u f rj = false.
+Proof.
+  exists (U [(16, 64)] 2
+            [R 16 1 3 0 true false false false; R 20 1 4 0 true false false false; R 32 1 4 0 true false false true;
+             R 32 1 9 0 true false false false; R 48 1 9 0 true false false true;
+             R 48 1 5 0 true true false false; R 64 1 5 0 true false false true]
+            [(16, 32, 100); (32, 48, 200); (48, 64, 100)]
+            [F 100 (Some [102]) [(16, 32); (48, 64)]; F 200 (Some [103]) [(32, 48)]]),
+         (F 100 (Some [102]) [(16, 32); (48, 64)]).
+  repeat split; try (vm_compute; reflexivity).
+  exists 1%nat, (R 20 1 4 0 true false false false). repeat split; try (vm_compute; reflexivity).
+  vm_compute. discriminate.
+Qed.
+
+(* REMAINING refutation 2 (unusual tables): no row at the function's low pc.  The start place is then
+   the last row BEFORE the function; if that row is a prologue_end row it is answered as is. *)
+Theorem fn_bp_no_row_at_low_pc_refuted :
+  exists u f, sorted_rowsb (u_rows u) = true /\ files_okb u = true /\ fn_lookup u (f_off f) = Some f /\
+    exists j rj, prolog_end_place [u] f = Ok (0%nat, (j, rj)) /\ in_fn f rj = false.
+Proof.
+  exists (U [(16, 48)] 2
+            [R 16 1 3 0 true true false false; R 36 1 8 0 true false false false; R 48 1 8 0 true false false true]
+            [(16, 32, 100); (32, 48, 200)]
+            [F 100 (Some [102]) [(16, 32)]; F 200 (Some [103]) [(32, 48)]]),
+         (F 200 (Some [103]) [(32, 48)]).
+  repeat split; try (vm_compute; reflexivity).
+  exists 0%nat, (R 16 1 3 0 true true false false). vm_compute. split; reflexivity.
+Qed.
+
 (* ------------------------------------------------------------------------------------------ *)
-(* file:line -> places (find_closest_place)                                                   *)
+(* file:line -> places (find_closest_place, rewritten in 0bd2878)                             *)
 (* ------------------------------------------------------------------------------------------ *)
 
 Lemma file_lines_from_in : forall rows f i0 i,
@@ -1002,177 +1271,451 @@ Proof. intros u i r H. unfold line_at in H. destruct (nth_error (u_rows u) i); i
 Lemma mk_place_ok : forall u i r p, mk_place u i r = Ok p -> p = (i, r).
 Proof. intros u i r p H. unfold mk_place in H. destruct (r_file r <? u_nfiles u); inversion H; reflexivity. Qed.
 
-Lemma lookahead_sound : forall u line rest a ra rest',
-  lookahead u line rest = Ok (Some (a, ra, rest')) ->
-  In a rest /\ nth_error (u_rows u) a = Some ra /\ r_line ra = line /\ r_stmt ra = true /\ r_pe ra = true /\
-  (forall x, In x rest' -> In x rest).
+(* boolean key equality is Leibniz equality *)
+Lemma list_eqb_eq : forall {A} (e : A -> A -> bool), (forall x y, e x y = true <-> x = y) ->
+  forall l1 l2, list_eqb e l1 l2 = true <-> l1 = l2.
 Proof.
-  intros u line. induction rest as [|b t IH]; intros a ra rest' H; cbn [lookahead] in H; [discriminate|].
-  inv_bind H. apply line_at_ok in E.
-  destruct (negb (r_line a0 =? line) || negb (r_stmt a0)) eqn:Hc; [discriminate|].
-  apply orb_false_iff in Hc. destruct Hc as [Hl Hst]. apply negb_false_iff in Hl, Hst. apply N.eqb_eq in Hl.
-  destruct (r_pe a0) eqn:Hpe.
-  - inversion H; subst. split; [left; reflexivity|]. repeat split; auto. intros x Hx. right. exact Hx.
-  - destruct (IH a ra rest' H) as [H1 [H2 [H3 [H4 [H5 H6]]]]].
-    split; [right; assumption|]. repeat split; auto. intros x Hx. right. auto.
+  intros A e He. induction l1 as [|x l1 IH]; intros [|y l2]; cbn [list_eqb]; split; intros H;
+    try reflexivity; try discriminate.
+  - apply andb_true_iff in H. destruct H as [H1 H2]. apply He in H1. apply IH in H2. congruence.
+  - inversion H; subst. apply andb_true_iff. split; [apply He; reflexivity|apply IH; reflexivity].
 Qed.
 
-Lemma same_shape_ok : forall p0 r, same_shape p0 r = true -> r_line r = r_line p0 /\ r_stmt r = true.
+Lemma fkey_eqb_eq : forall a b : option bstr * list (N * N), fkey_eqb a b = true <-> a = b.
 Proof.
-  intros p0 r H. unfold same_shape in H. repeat (apply andb_true_iff in H; destruct H as [H ?]).
-  apply N.eqb_eq in H. auto.
+  intros [n1 r1] [n2 r2]. unfold fkey_eqb. cbn [fst snd]. rewrite andb_true_iff.
+  assert (Hn : oname_eqb n1 n2 = true <-> n1 = n2).
+  { destruct n1 as [x|], n2 as [y|]; cbn [oname_eqb]; try (split; congruence).
+    unfold bstr_eqb. rewrite (list_eqb_eq N.eqb N.eqb_eq). split; congruence. }
+  assert (Hr : list_eqb range_eqb r1 r2 = true <-> r1 = r2).
+  { apply list_eqb_eq. intros [a b] [c d]. unfold range_eqb. cbn [fst snd]. rewrite andb_true_iff, !N.eqb_eq.
+    split; [intros [-> ->]; reflexivity|intros H; inversion H; auto]. }
+  rewrite Hn, Hr. split; [intros [-> ->]; reflexivity|intros H; inversion H; auto].
 Qed.
 
-Lemma scan_rest_sound : forall u p0 fl ps, scan_rest u p0 fl = Ok ps ->
-  forall i r, In (i, r) ps ->
-    In i fl /\ nth_error (u_rows u) i = Some r /\ r_line r = r_line p0 /\ r_stmt r = true.
+Lemma existsb_fkey : forall k (l : list (option bstr * list (N * N))), existsb (fkey_eqb k) l = true <-> In k l.
 Proof.
-  intros u p0. induction fl as [|a t IH]; intros ps H i r Hin; cbn [scan_rest] in H.
-  - inversion H; subst. destruct Hin.
-  - inv_bind H. apply line_at_ok in E. destruct (same_shape p0 a0) eqn:Hsh.
-    + inv_bind H. inv_bind H. inversion H; subst. apply mk_place_ok in E0. subst a1.
-      destruct Hin as [Hin|Hin].
-      * inversion Hin; subst. apply same_shape_ok in Hsh. destruct Hsh. split; [left; reflexivity|]. auto.
-      * destruct (IH _ E1 i r Hin) as [H1 H2]. split; [right; assumption|assumption].
-    + destruct (IH _ H i r Hin) as [H1 H2]. split; [right; assumption|assumption].
+  intros k l. rewrite existsb_exists. split.
+  - intros [x [Hx He]]. apply fkey_eqb_eq in He. subst. assumption.
+  - intros H. exists k. split; [assumption|apply fkey_eqb_eq; reflexivity].
 Qed.
 
-(* every place found in a unit is an is_stmt row of the wanted line, taken from the file's rows *)
-Lemma scan_first_sound : forall u needle fl ps, scan_first u needle fl = Ok ps ->
-  forall i r, In (i, r) ps ->
-    In i fl /\ nth_error (u_rows u) i = Some r /\ r_line r = needle /\ r_stmt r = true.
+(* the subprogram key find_function_by_pc gives to an address / to a place *)
+Definition akey (units : list unit) (a : N) : option (option bstr * list (N * N)) :=
+  match find_function_by_pc units a with
+  | Ok (Some (_, _, info)) => Some (fkey_of info)
+  | _ => None
+  end.
+Definition pkey (units : list unit) (q : nat * (nat * row)) := akey units (r_addr (snd (snd q))).
+
+Notation keys_of acc := (filter_map fst acc).
+
+Lemma filter_map_app : forall {A B} (f : A -> option B) l1 l2,
+  filter_map f (l1 ++ l2) = filter_map f l1 ++ filter_map f l2.
 Proof.
-  intros u needle. induction fl as [|a t IH]; intros ps H i r Hin; cbn [scan_first] in H.
-  - inversion H; subst. destruct Hin.
+  induction l1 as [|x l1 IH]; intros l2; cbn [app filter_map]; [reflexivity|].
+  destruct (f x); cbn [app]; rewrite IH; reflexivity.
+Qed.
+
+Lemma in_filter_map : forall {A B} (f : A -> option B) l y,
+  In y (filter_map f l) <-> exists x, In x l /\ f x = Some y.
+Proof.
+  induction l as [|a l IH]; intros y; cbn [filter_map].
+  - split; [intros []|intros [x [[] _]]].
+  - destruct (f a) as [b|] eqn:Ha.
+    + split.
+      * intros [<-|H]; [exists a; split; [left; reflexivity|exact Ha]|].
+        apply IH in H. destruct H as [x [Hx Hf]]. exists x. split; [right; exact Hx|exact Hf].
+      * intros [x [[<-|Hx] Hf]]; [left; congruence|]. right. apply IH. exists x. split; assumption.
+    + rewrite IH. split.
+      * intros [x [Hx Hf]]. exists x. split; [right; exact Hx|exact Hf].
+      * intros [x [[<-|Hx] Hf]]; [congruence|]. exists x. split; assumption.
+Qed.
+
+(* facts about the update of places_in_unit *)
+Lemma upd_acc_spec : forall k p acc,
+  (forall e, In e (upd_acc k p acc) -> In e acc \/ e = (Some k, p)) /\
+  (forall e, In e acc -> fst e <> Some k -> In e (upd_acc k p acc)) /\
+  (exists p', In (Some k, p') (upd_acc k p acc)) /\
+  (forall k', In k' (keys_of (upd_acc k p acc)) <-> In k' (keys_of acc) \/ k' = k) /\
+  (NoDup (keys_of acc) -> NoDup (keys_of (upd_acc k p acc))).
+Proof.
+  intros k p. induction acc as [|[ko c] t [IH1 [IH2 [IH3 [IH4 IH5]]]]]; cbn [upd_acc].
+  - split; [intros e [<-|[]]; right; reflexivity|]. split; [intros e []|]. split; [exists p; left; reflexivity|].
+    split; [cbn; intros k'; split; [intros [<-|[]]; right; reflexivity|intros [[] | ->]; left; reflexivity]|].
+    intros _. cbn. constructor; [intros []|constructor].
+  - destruct (okey_is k ko) eqn:Hk.
+    + destruct ko as [k0|]; [|discriminate]. cbn [okey_is] in Hk. apply fkey_eqb_eq in Hk. subst k0. split.
+      { intros e [<-|He]; [|left; right; assumption].
+        destruct (r_pe (snd p) && negb (r_pe (snd c))); [right; reflexivity|left; left; reflexivity]. }
+      split.
+      { intros e [<-|He] Hne; [cbn in Hne; congruence|right; assumption]. }
+      split; [eexists; left; reflexivity|]. split.
+      { intros k'. cbn [filter_map fst In]. split; [intros H; left; exact H|intros [H | ->]; [exact H|left; reflexivity]]. }
+      intros H. exact H.
+    + assert (Hne : ko <> Some k).
+      { intros ->. cbn [okey_is] in Hk. rewrite (proj2 (fkey_eqb_eq k k) eq_refl) in Hk. discriminate. }
+      split.
+      { intros e [<-|He]; [left; left; reflexivity|]. destruct (IH1 e He); [left; right; assumption|right; assumption]. }
+      split.
+      { intros e [<-|He] Hn; [left; reflexivity|right; apply IH2; assumption]. }
+      split; [destruct IH3 as [p' Hp']; exists p'; right; assumption|]. split.
+      { intros k'. destruct ko as [k0|]; cbn [filter_map fst].
+        - cbn [In]. rewrite IH4. tauto.
+        - apply IH4. }
+      intros Hnd. destruct ko as [k0|]; cbn [filter_map fst] in *; [|apply IH5; assumption].
+      inversion Hnd; subst. constructor; [|apply IH5; assumption].
+      intros Hin. apply IH4 in Hin. destruct Hin as [Hin | ->]; [contradiction|congruence].
+Qed.
+
+(* candidate rows of the line in a unit: is_stmt, not end_sequence *)
+Definition cand_row (needle : N) (r : row) : Prop := r_line r = needle /\ r_stmt r = true /\ r_es r = false.
+
+Lemma cand_row_dec : forall needle r,
+  (negb (r_line r =? needle) || negb (r_stmt r) || r_es r) = false <-> cand_row needle r.
+Proof.
+  intros needle r. unfold cand_row. rewrite !orb_false_iff, !negb_false_iff, N.eqb_eq. tauto.
+Qed.
+
+(* invariant-style specification of the per-unit loop *)
+Lemma group_rows_spec : forall units u needle seen fl acc acc',
+  group_rows units u needle seen acc fl = Ok acc' ->
+  (* soundness of new entries *)
+  (forall e, In e acc' -> In e acc \/
+     exists i r, snd e = (i, r) /\ In i fl /\ nth_error (u_rows u) i = Some r /\ cand_row needle r /\
+                 fst e = akey units (r_addr r) /\ (forall k, fst e = Some k -> ~ In k seen)) /\
+  (* keys stay distinct *)
+  (NoDup (keys_of acc) -> NoDup (keys_of acc')) /\
+  (* nothing is lost *)
+  (forall c, In (None, c) acc -> In (None, c) acc') /\
+  (forall k p, In (Some k, p) acc -> exists p', In (Some k, p') acc') /\
+  (* completeness *)
+  (forall i r, In i fl -> nth_error (u_rows u) i = Some r -> cand_row needle r ->
+     match akey units (r_addr r) with
+     | None => In (None, (i, r)) acc'
+     | Some k => In k seen \/ exists p, In (Some k, p) acc'
+     end).
+Proof.
+  intros units u needle seen. induction fl as [|i t IH]; intros acc acc' H; cbn [group_rows] in H.
+  - inversion H; subst. split; [intros e He; left; exact He|]. split; [auto|]. split; [auto|].
+    split; [intros k p Hp; exists p; exact Hp|]. intros i r [].
   - inv_bind H. apply line_at_ok in E.
-    destruct (negb (r_line a0 =? needle) || negb (r_stmt a0)) eqn:Hc.
-    + destruct (IH _ H i r Hin) as [H1 H2]. split; [right; assumption|assumption].
-    + apply orb_false_iff in Hc. destruct Hc as [Hl Hst]. apply negb_false_iff in Hl, Hst. apply N.eqb_eq in Hl.
-      inv_bind H. destruct a1 as [[[b rb] rest']|].
-      * apply lookahead_sound in E0. destruct E0 as [Hb1 [Hb2 [Hb3 [Hb4 [_ Hb6]]]]].
-        inv_bind H. inv_bind H. inversion H; subst. apply mk_place_ok in E0. subst a1.
-        destruct Hin as [Hin|Hin].
-        -- inversion Hin; subst. split; [right; assumption|]. auto.
-        -- destruct (scan_rest_sound _ _ _ _ E1 i r Hin) as [H1 [H2 [H3 H4]]].
-           split; [right; auto|]. split; [assumption|]. split; [congruence|assumption].
-      * inv_bind H. inv_bind H. inversion H; subst. apply mk_place_ok in E1. subst a1.
-        destruct Hin as [Hin|Hin].
-        -- inversion Hin; subst. split; [left; reflexivity|]. auto.
-        -- destruct (scan_rest_sound _ _ _ _ E2 i r Hin) as [H1 [H2 [H3 H4]]].
-           split; [right; auto|]. split; [assumption|]. split; [congruence|assumption].
+    destruct (negb (r_line a =? needle) || negb (r_stmt a) || r_es a) eqn:Hc.
+    + destruct (IH _ _ H) as [S1 [S2 [S3 [S4 S5]]]]. split.
+      { intros e He. destruct (S1 e He) as [Hl|[j [r [H1 [H2 H3]]]]]; [left; exact Hl|].
+        right. exists j, r. split; [exact H1|]. split; [right; exact H2|exact H3]. }
+      split; [exact S2|]. split; [exact S3|]. split; [exact S4|].
+      intros j r [<-|Hj] Hr Hcand; [|apply S5; assumption].
+      exfalso. assert (a = r) by congruence. subst a. apply cand_row_dec in Hcand. congruence.
+    + apply cand_row_dec in Hc. inv_bind H. apply mk_place_ok in E0. subst a0. inv_bind H.
+      assert (Hak : akey units (r_addr a) =
+                    match a0 with Some (_, _, info) => Some (fkey_of info) | None => None end).
+      { unfold akey. rewrite E0. destruct a0 as [[[? ?] ?]|]; reflexivity. }
+      destruct a0 as [[[vi d] info]|].
+      * destruct (existsb (fkey_eqb (fkey_of info)) seen) eqn:Hex.
+        -- apply existsb_fkey in Hex. destruct (IH _ _ H) as [S1 [S2 [S3 [S4 S5]]]]. split.
+           { intros e He. destruct (S1 e He) as [Hl|[j [r [H1 [H2 H3]]]]]; [left; exact Hl|].
+             right. exists j, r. split; [exact H1|]. split; [right; exact H2|exact H3]. }
+           split; [exact S2|]. split; [exact S3|]. split; [exact S4|].
+           intros j r [<-|Hj] Hr Hcand; [|apply S5; assumption].
+           assert (a = r) by congruence. subst a. rewrite Hak. left. exact Hex.
+        -- assert (Hns : ~ In (fkey_of info) seen).
+           { intros Hin. apply existsb_fkey in Hin. congruence. }
+           destruct (upd_acc_spec (fkey_of info) (i, a) acc) as [U1 [U2 [U3 [U4 U5]]]].
+           destruct (IH _ _ H) as [S1 [S2 [S3 [S4 S5]]]]. split.
+           { intros e He. destruct (S1 e He) as [Hl|[j [r [H1 [H2 H3]]]]].
+             - destruct (U1 e Hl) as [Hold | ->]; [left; exact Hold|].
+               right. exists i, a. cbn [fst snd]. split; [reflexivity|]. split; [left; reflexivity|].
+               split; [exact E|]. split; [exact Hc|]. split; [symmetry; exact Hak|].
+               intros k Hk. inversion Hk; subst. exact Hns.
+             - right. exists j, r. split; [exact H1|]. split; [right; exact H2|exact H3]. }
+           split; [intros Hnd; apply S2; apply U5; exact Hnd|].
+           split; [intros c Hc'; apply S3; apply U2; [exact Hc'|discriminate]|].
+           split.
+           { intros k p Hp. destruct (fkey_eqb k (fkey_of info)) eqn:Hke.
+             - apply fkey_eqb_eq in Hke. subst k. destruct U3 as [p' Hp']. apply (S4 _ _ Hp').
+             - apply (S4 k p). apply U2; [exact Hp|]. cbn [fst]. intros Heq. inversion Heq; subst.
+               rewrite (proj2 (fkey_eqb_eq _ _) eq_refl) in Hke. discriminate. }
+           intros j r [<-|Hj] Hr Hcand; [|apply S5; assumption].
+           assert (a = r) by congruence. subst a. rewrite Hak. right.
+           destruct U3 as [p' Hp']. apply (S4 _ _ Hp').
+      * destruct (IH _ _ H) as [S1 [S2 [S3 [S4 S5]]]]. split.
+        { intros e He. destruct (S1 e He) as [Hl|[j [r [H1 [H2 H3]]]]].
+          - apply in_app_or in Hl. destruct Hl as [Hold|[<-|[]]]; [left; exact Hold|].
+            right. exists i, a. cbn [fst snd]. split; [reflexivity|]. split; [left; reflexivity|].
+            split; [exact E|]. split; [exact Hc|]. split; [symmetry; exact Hak|]. intros k Hk. discriminate.
+          - right. exists j, r. split; [exact H1|]. split; [right; exact H2|exact H3]. }
+        split.
+        { intros Hnd. apply S2. rewrite filter_map_app. cbn [filter_map fst]. rewrite app_nil_r. exact Hnd. }
+        split; [intros c Hc'; apply S3; apply in_or_app; left; exact Hc'|].
+        split; [intros k p Hp; apply (S4 k p); apply in_or_app; left; exact Hp|].
+        intros j r [<-|Hj] Hr Hcand; [|apply S5; assumption].
+        assert (a = r) by congruence. subst a. rewrite Hak. apply S3. apply in_or_app. right. left. reflexivity.
 Qed.
 
-(* ... and an empty result means the file has no is_stmt row of that line in the unit *)
-Lemma scan_first_empty : forall u needle fl, scan_first u needle fl = Ok [] ->
-  forall i r, In i fl -> nth_error (u_rows u) i = Some r -> ~ (r_line r = needle /\ r_stmt r = true).
+Lemma stmt_row_intro : forall f line r, r_file r = f -> cand_row line r -> stmt_row f line r = true.
 Proof.
-  intros u needle. induction fl as [|a t IH]; intros H i r Hin Hr [Hl Hst]; [destruct Hin|].
-  cbn [scan_first] in H. inv_bind H. apply line_at_ok in E.
-  destruct (negb (r_line a0 =? needle) || negb (r_stmt a0)) eqn:Hc.
-  - destruct Hin as [->|Hin].
-    + assert (a0 = r) by congruence. subst a0. rewrite Hl, N.eqb_refl, Hst in Hc. discriminate.
-    + apply (IH H i r Hin Hr). auto.
-  - inv_bind H. destruct a1 as [[[b rb] rest']|]; inv_bind H; inv_bind H; discriminate.
+  intros f line r Hf [Hl [Hs He]]. unfold stmt_row. rewrite Hf, Hl, !N.eqb_refl, Hs, He. reflexivity.
 Qed.
 
-Lemma filter_unique_sound : forall units ui ps seen seen' out,
-  filter_unique units ui seen ps = Ok (seen', out) ->
-  (forall q, In q out -> exists p, In p ps /\ q = (ui, p)) /\
-  (seen = [] -> out = [] -> ps = [] /\ seen' = []).
-Proof.
-  intros units ui. induction ps as [|p t IH]; intros seen seen' out H; cbn [filter_unique] in H.
-  - inversion H; subst. split; [intros q []|]. intros -> _. split; reflexivity.
-  - inv_bind H. destruct a as [[[vi d] info]|].
-    + destruct (existsb (fkey_eqb (fkey_of info)) seen) eqn:Hex.
-      * destruct (IH _ _ _ H) as [H1 H2]. split.
-        -- intros q Hq. destruct (H1 q Hq) as [p' [Hp' ->]]. exists p'. split; [right; assumption|reflexivity].
-        -- intros -> _. cbn in Hex. discriminate.
-      * inv_bind H. destruct a as [s o]. cbn [fst snd] in H. inversion H; subst.
-        destruct (IH _ _ _ E0) as [H1 _]. split.
-        -- intros q [<-|Hq]; [exists p; split; [left; reflexivity|reflexivity]|].
-           destruct (H1 q Hq) as [p' [Hp' ->]]. exists p'. split; [right; assumption|reflexivity].
-        -- intros _ Hnil. discriminate.
-    + inv_bind H. destruct a as [s o]. cbn [fst snd] in H. inversion H; subst.
-      destruct (IH _ _ _ E0) as [H1 _]. split.
-      * intros q [<-|Hq]; [exists p; split; [left; reflexivity|reflexivity]|].
-        destruct (H1 q Hq) as [p' [Hp' ->]]. exists p'. split; [right; assumption|reflexivity].
-      * intros _ Hnil. discriminate.
-Qed.
-
-Lemma stmt_row_intro : forall f line r, r_file r = f -> r_line r = line -> r_stmt r = true -> stmt_row f line r = true.
-Proof. intros f line r Hf Hl H. unfold stmt_row. rewrite Hf, Hl, !N.eqb_refl, H. reflexivity. Qed.
-
-Lemma stmt_row_elim : forall f line r, stmt_row f line r = true -> r_file r = f /\ r_line r = line /\ r_stmt r = true.
+Lemma stmt_row_elim : forall f line r, stmt_row f line r = true -> r_file r = f /\ cand_row line r.
 Proof.
   intros f line r H. unfold stmt_row in H. repeat (apply andb_true_iff in H; destruct H as [H ?]).
-  apply N.eqb_eq in H. apply N.eqb_eq in H1. auto.
+  apply N.eqb_eq in H. apply N.eqb_eq in H2. apply negb_true_iff in H0. unfold cand_row. auto.
 Qed.
 
-Lemma closest_units_sound : forall units needle files seen seen' out,
+Lemma keys_of_places : forall units (ui : nat) (acc : list (option (option bstr * list (N * N)) * (nat * row))),
+  (forall e, In e acc -> fst e = akey units (r_addr (snd (snd e)))) ->
+  filter_map (pkey units) (map (fun e => (ui, snd e)) acc) = keys_of acc.
+Proof.
+  intros units ui. induction acc as [|e t IH]; intros H; [reflexivity|].
+  cbn [map filter_map]. unfold pkey at 1. cbn [snd]. rewrite <- (H e (or_introl eq_refl)).
+  destruct (fst e); rewrite IH; auto; intros e' He'; apply H; right; exact He'.
+Qed.
+
+Lemma NoDup_app_disj : forall {A} (l1 l2 : list A), NoDup l1 -> NoDup l2 ->
+  (forall x, In x l1 -> ~ In x l2) -> NoDup (l1 ++ l2).
+Proof.
+  induction l1 as [|x l1 IH]; intros l2 H1 H2 Hd; [exact H2|]. cbn [app]. inversion H1; subst.
+  constructor.
+  - intros Hin. apply in_app_or in Hin. destruct Hin as [Hin|Hin]; [contradiction|]. apply (Hd x); [left; reflexivity|exact Hin].
+  - apply IH; auto. intros y Hy. apply Hd. right. exact Hy.
+Qed.
+
+(* specification of one pass over the files *)
+Lemma closest_units_spec : forall units needle files seen seen' out,
   closest_units units needle files seen = Ok (seen', out) ->
-  forall q, In q out -> is_line_place units files needle q.
+  (forall q, In q out -> is_line_place units files needle q /\ (forall k, pkey units q = Some k -> ~ In k seen)) /\
+  NoDup (filter_map (pkey units) out) /\
+  (out = [] -> seen' = seen) /\
+  (forall ui f u i r, In (ui, f) files -> nth_error units ui = Some u ->
+     nth_error (u_rows u) i = Some r -> stmt_row f needle r = true ->
+     match akey units (r_addr r) with
+     | None => In (ui, (i, r)) out
+     | Some k => In k seen \/ exists q, In q out /\ pkey units q = Some k
+     end).
 Proof.
-  intros units needle. induction files as [|[ui f] t IH]; intros seen seen' out H q Hq; cbn [closest_units] in H.
-  - inversion H; subst. destruct Hq.
+  intros units needle. induction files as [|[ui f] t IH]; intros seen seen' out H; cbn [closest_units] in H.
+  - inversion H; subst. split; [intros q []|]. split; [constructor|]. split; [reflexivity|].
+    intros ui f u i r [].
   - destruct (nth_error units ui) as [u|] eqn:Hu; [|discriminate].
-    inv_bind H. inv_bind H. inv_bind H. destruct a0 as [s1 o1]. destruct a1 as [s2 o2]. cbn [fst snd] in *.
-    inversion H; subst. apply in_app_or in Hq. destruct Hq as [Hq|Hq].
-    + apply filter_unique_sound in E0. destruct E0 as [H1 _]. destruct (H1 q Hq) as [[i r] [Hp ->]].
-      destruct (scan_first_sound _ _ _ _ E i r Hp) as [Hi [Hr [Hl Hst]]].
-      apply file_lines_in in Hi. destruct Hi as [r' [Hr' Hf]]. assert (r' = r) by congruence. subst r'.
-      exists f, u. cbn [fst snd]. split; [left; reflexivity|]. split; [assumption|]. split; [assumption|].
-      apply stmt_row_intro; assumption.
-    + destruct (IH _ _ _ E1 q Hq) as [f' [u' [H1 H2]]]. exists f', u'. split; [right; assumption|assumption].
-Qed.
-
-Lemma closest_units_empty : forall units needle files seen',
-  closest_units units needle files [] = Ok (seen', []) ->
-  seen' = [] /\ ~ line_has_code units files needle.
-Proof.
-  intros units needle. induction files as [|[ui f] t IH]; intros seen' H; cbn [closest_units] in H.
-  - inversion H; subst. split; [reflexivity|]. intros [ui [f [u [r [[] _]]]]].
-  - destruct (nth_error units ui) as [u|] eqn:Hu; [|discriminate].
-    inv_bind H. inv_bind H. inv_bind H. destruct a0 as [s1 o1]. destruct a1 as [s2 o2]. cbn [fst snd] in *.
-    inversion H; subst. apply app_eq_nil in H2. destruct H2 as [-> ->].
-    apply filter_unique_sound in E0. destruct E0 as [_ H2]. destruct (H2 eq_refl eq_refl) as [-> ->].
-    destruct (IH _ E1) as [-> Hno]. split; [reflexivity|].
-    intros [vi [g [v [r [Hin [Hv [Hr Hst]]]]]]]. destruct Hin as [Heq|Hin].
+    inv_bind H. inv_bind H. destruct a0 as [s2 o2]. cbn [fst snd] in H. inversion H; subst. clear H.
+    destruct (group_rows_spec _ _ _ _ _ _ _ E) as [G1 [G2 [_ [_ G5]]]].
+    destruct (IH _ _ _ E0) as [I1 [I2 [I3 I4]]].
+    assert (Hacc : forall e, In e a -> exists i r, snd e = (i, r) /\ In i (file_lines u f) /\
+               nth_error (u_rows u) i = Some r /\ cand_row needle r /\
+               fst e = akey units (r_addr r) /\ (forall k, fst e = Some k -> ~ In k seen)).
+    { intros e He. destruct (G1 e He) as [[]|Hx]. exact Hx. }
+    assert (Hkeys : filter_map (pkey units) (map (fun e => (ui, snd e)) a) = keys_of a).
+    { apply keys_of_places. intros e He. destruct (Hacc e He) as [i [r [H1 [_ [_ [_ [H5 _]]]]]]].
+      rewrite H1. cbn [snd]. exact H5. }
+    split.
+    { intros q Hq. apply in_app_or in Hq. destruct Hq as [Hq|Hq].
+      - apply in_map_iff in Hq. destruct Hq as [e [<- He]].
+        destruct (Hacc e He) as [i [r [H1 [H2 [H3 [H4 [H5 H6]]]]]]]. split.
+        + apply file_lines_in in H2. destruct H2 as [r' [Hr' Hf]]. assert (r' = r) by congruence. subst r'.
+          exists f, u. cbn [fst snd]. rewrite H1. cbn [fst snd]. split; [left; reflexivity|].
+          split; [assumption|]. split; [assumption|]. apply stmt_row_intro; assumption.
+        + intros k Hk. apply H6. unfold pkey in Hk. cbn [snd] in Hk. rewrite H1 in Hk. cbn [snd] in Hk. congruence.
+      - destruct (I1 q Hq) as [[f' [u' [J1 J2]]] J3]. split.
+        + exists f', u'. split; [right; assumption|assumption].
+        + intros k Hk Hin. apply (J3 k Hk). apply in_or_app. right. exact Hin. }
+    split.
+    { rewrite filter_map_app, Hkeys. apply NoDup_app_disj; [apply G2; constructor|exact I2|].
+      intros k Hk Hin. apply in_filter_map in Hin. destruct Hin as [q [Hq Hqk]].
+      destruct (I1 q Hq) as [_ J3]. apply (J3 k Hqk). apply in_or_app. left. exact Hk. }
+    split.
+    { intros Hnil. apply app_eq_nil in Hnil. destruct Hnil as [Ha Ho]. apply map_eq_nil in Ha. subst a.
+      cbn [filter_map app] in *. apply I3. exact Ho. }
+    intros vi g v i r [Heq|Hin] Hv Hr Hst.
     + inversion Heq; subst. assert (v = u) by congruence. subst v.
-      apply stmt_row_elim in Hst. destruct Hst as [Hf [Hl Hs]].
-      apply In_nth_error in Hr. destruct Hr as [i Hi].
-      apply (scan_first_empty _ _ _ E i r); [apply file_lines_in; exists r; auto|assumption|auto].
-    + apply Hno. exists vi, g, v, r. auto.
+      apply stmt_row_elim in Hst. destruct Hst as [Hf Hcand].
+      assert (Hi : In i (file_lines u g)) by (apply file_lines_in; exists r; auto).
+      specialize (G5 i r Hi Hr Hcand). destruct (akey units (r_addr r)) as [k|].
+      * destruct G5 as [Hs|[p Hp]]; [left; exact Hs|]. right. exists (vi, p). split.
+        -- apply in_or_app. left. apply in_map_iff. exists (Some k, p). split; [reflexivity|exact Hp].
+        -- destruct (Hacc _ Hp) as [i' [r' [H1 [_ [_ [_ [H5 _]]]]]]]. cbn [fst snd] in *.
+           unfold pkey. cbn [snd]. rewrite H1. cbn [snd]. congruence.
+      * apply in_or_app. left. apply in_map_iff. exists (None, (i, r)). split; [reflexivity|exact G5].
+    + specialize (I4 vi g v i r Hin Hv Hr Hst). destruct (akey units (r_addr r)) as [k|].
+      * destruct I4 as [Hs|[q [Hq Hqk]]].
+        -- apply in_app_or in Hs. destruct Hs as [Hs|Hs]; [|left; exact Hs]. right.
+           apply in_filter_map in Hs. destruct Hs as [e [He Hek]].
+           exists (ui, snd e). split; [apply in_or_app; left; apply in_map_iff; exists e; auto|].
+           destruct (Hacc e He) as [i' [r' [H1 [_ [_ [_ [H5 _]]]]]]].
+           unfold pkey. cbn [snd]. rewrite H1. cbn [snd]. congruence.
+        -- right. exists q. split; [apply in_or_app; right; exact Hq|exact Hqk].
+      * apply in_or_app. right. exact I4.
 Qed.
 
-(* HEADLINE (soundness of `break file:L`): every address chosen is an is_stmt row of line L of one of
-   the files the template selected, or of line L+1 and then L has no is_stmt row at all there;
-   and if L has code the answer is not empty.  No assumption on the tables. *)
+(* the line the answer is about: L if it has code in the selected files, else L+1 (saturating) *)
+Definition line1_of (line : N) : N := if line =? U64_MAX then U64_MAX else line + 1.
+Definition chosen_line (units : list unit) (files : list (nat * N)) (line Lc : N) : Prop :=
+  (Lc = line /\ line_has_code units files line) \/ (Lc = line1_of line /\ ~ line_has_code units files line).
+
+Lemma chosen_line_unique : forall units files line a b,
+  chosen_line units files line a -> chosen_line units files line b -> a = b.
+Proof. intros units files line a b [[-> Ha]|[-> Ha]] [[-> Hb]|[-> Hb]]; try reflexivity; contradiction. Qed.
+
+Lemma is_line_place_has_code : forall units files line q,
+  is_line_place units files line q -> line_has_code units files line.
+Proof.
+  intros units files line q [f [u [H1 [H2 [H3 H4]]]]]. exists (fst q), f, u, (snd (snd q)).
+  split; [assumption|]. split; [assumption|]. split; [eapply nth_error_In; eauto|assumption].
+Qed.
+
+(* what find_closest_place returns, for the chosen line *)
+Lemma find_closest_place_spec : forall ovf units files line ps,
+  find_closest_place ovf units files line = Ok ps ->
+  exists Lc, chosen_line units files line Lc /\
+    (forall q, In q ps -> is_line_place units files Lc q) /\
+    NoDup (filter_map (pkey units) ps) /\
+    (forall ui f u i r, In (ui, f) files -> nth_error units ui = Some u ->
+       nth_error (u_rows u) i = Some r -> stmt_row f Lc r = true ->
+       match akey units (r_addr r) with
+       | None => In (ui, (i, r)) ps
+       | Some k => exists q, In q ps /\ pkey units q = Some k
+       end).
+Proof.
+  intros ovf units files line ps H. unfold find_closest_place in H. fold (line1_of line) in H.
+  inv_bind H. destruct a as [s1 o1]. cbn [fst snd] in H.
+  destruct (closest_units_spec _ _ _ _ _ _ E) as [A1 [A2 [A3 A4]]].
+  destruct o1 as [|q o1].
+  - inv_bind H. destruct a as [s2 o2]. cbn [snd] in H. inversion H; subst. rewrite (A3 eq_refl) in E0.
+    assert (Hno : ~ line_has_code units files line).
+    { intros [ui [f [u [r [Hin [Hu [Hr Hst]]]]]]]. apply In_nth_error in Hr. destruct Hr as [i Hi].
+      specialize (A4 ui f u i r Hin Hu Hi Hst). destruct (akey units (r_addr r)); [|destruct A4].
+      destruct A4 as [[]|[q [[] _]]]. }
+    destruct (closest_units_spec _ _ _ _ _ _ E0) as [B1 [B2 [_ B4]]].
+    exists (line1_of line). split; [right; split; [reflexivity|exact Hno]|].
+    split; [intros q Hq; apply (B1 q Hq)|]. split; [exact B2|].
+    intros ui f u i r Hin Hu Hr Hst. specialize (B4 ui f u i r Hin Hu Hr Hst).
+    destruct (akey units (r_addr r)); [|exact B4]. destruct B4 as [[]|B4]. exact B4.
+  - inversion H; subst. exists line. split.
+    { left. split; [reflexivity|]. apply (is_line_place_has_code units files line q). apply (A1 q). left. reflexivity. }
+    split; [intros p Hp; apply (A1 p Hp)|]. split; [exact A2|].
+    intros ui f u i r Hin Hu Hr Hst. specialize (A4 ui f u i r Hin Hu Hr Hst).
+    destruct (akey units (r_addr r)); [|exact A4]. destruct A4 as [[]|A4]. exact A4.
+Qed.
+
+(* HEADLINE 1 (soundness of `break file:L`), every u64 line, no hypothesis on the tables: every
+   address chosen is an is_stmt, non-end_sequence row of line L of one of the selected files, or of
+   L+1 and then L has no such row; and if L has code the answer is not empty. *)
 Theorem find_closest_place_sound : forall ovf units files line ps,
-  line < U64_MAX ->
   find_closest_place ovf units files line = Ok ps ->
   line_places_ok units files line ps /\ (line_has_code units files line -> ps <> []).
 Proof.
-  intros ovf units files line ps Hlt H. unfold find_closest_place in H.
-  destruct (N.eqb_spec line U64_MAX) as [->|_]; [lia|]. cbn [bind] in H.
-  inv_bind H. destruct a as [s1 o1]. cbn [fst snd] in H. destruct o1 as [|q o1].
-  - inv_bind H. destruct a as [s2 o2]. cbn [snd] in H. inversion H; subst.
-    apply closest_units_empty in E. destruct E as [-> Hno]. split; [|contradiction].
-    right. split; [assumption|]. intros p Hp. eapply closest_units_sound; eauto.
-  - inversion H; subst. split; [|discriminate]. left. intros p Hp. eapply closest_units_sound; eauto.
+  intros ovf units files line ps H.
+  destruct (find_closest_place_spec _ _ _ _ _ H) as [Lc [Hc [Hs [_ Hcomp]]]]. split.
+  - destruct Hc as [[-> _]|[-> Hno]]; [left; exact Hs|].
+    unfold line1_of in Hs. destruct (N.eqb_spec line U64_MAX) as [He|Hne].
+    + left. rewrite He. exact Hs.
+    + right. split; [exact Hno|exact Hs].
+  - intros Hcode Hnil. destruct Hc as [[-> _]|[_ Hno]]; [|contradiction]. subst ps.
+    destruct Hcode as [ui [f [u [r [Hin [Hu [Hr Hst]]]]]]]. apply In_nth_error in Hr. destruct Hr as [i Hi].
+    specialize (Hcomp ui f u i r Hin Hu Hi Hst). destruct (akey units (r_addr r)); [|destruct Hcomp].
+    destruct Hcomp as [q [[] _]].
 Qed.
 
-(* the overflow on the last line number *)
-Theorem find_closest_place_overflow : forall units files,
-  find_closest_place true units files U64_MAX = Panic 8.
-Proof. intros. reflexivity. Qed.
+(* HEADLINE 2: no two answered places belong to the same (name, ranges) subprogram *)
+Theorem find_closest_place_one_per_key : forall ovf units files line ps,
+  find_closest_place ovf units files line = Ok ps -> NoDup (filter_map (pkey units) ps).
+Proof.
+  intros ovf units files line ps H. destruct (find_closest_place_spec _ _ _ _ _ H) as [Lc [_ [_ [Hn _]]]]. exact Hn.
+Qed.
 
-(* REFUTATION 1 of "every function that contains the line gets its own breakpoint".
-   The look-ahead for a prologue_end row (dwarf/mod.rs:391-408) walks over ALL following rows of the
-   file that are is_stmt rows of the same line - including the end_sequence row of the function and
-   the rows of the NEXT function - and replaces the hit by the first prologue_end row it meets.
-   f = [0x10,0x20) has its last statement on line 7 (0x18); the closure g = [0x40,0x50) that follows
-   it in the address space is written on line 7 too.  `break file:7` yields ONE place, g's prologue
-   end 0x44; f, which contains line 7, gets none. *)
+(* HEADLINE 3 (completeness): every is_stmt non-end_sequence row of the chosen line is represented:
+   its subprogram has a place in the answer, or - no subprogram found - the row itself is answered *)
+Theorem find_closest_place_complete : forall ovf units files line ps Lc,
+  find_closest_place ovf units files line = Ok ps -> chosen_line units files line Lc ->
+  forall ui f u i r, In (ui, f) files -> nth_error units ui = Some u ->
+    nth_error (u_rows u) i = Some r -> stmt_row f Lc r = true ->
+    match akey units (r_addr r) with
+    | None => In (ui, (i, r)) ps
+    | Some k => exists q, In q ps /\ pkey units q = Some k
+    end.
+Proof.
+  intros ovf units files line ps Lc H Hch.
+  destruct (find_closest_place_spec _ _ _ _ _ H) as [Lc' [Hc [_ [_ Hcomp]]]].
+  rewrite (chosen_line_unique _ _ _ _ _ Hch Hc). exact Hcomp.
+Qed.
+
+(* [g] is resolved consistently for the rows of line Lc: a candidate row lies in g's ranges iff
+   find_function_by_pc attributes its address to g's key.  (True when the ranges of distinct
+   subprograms are disjoint and the function's unit is the first that claims the address -
+   find_function_by_pc_partial.)  Decidable: [fn_resolvesb]. *)
+Definition fn_resolves (units : list unit) (files : list (nat * N)) (Lc : N) (g : fn_info) : Prop :=
+  forall ui f u r, In (ui, f) files -> nth_error units ui = Some u -> In r (u_rows u) ->
+    stmt_row f Lc r = true ->
+    (addr_in_fn g (r_addr r) = true <-> akey units (r_addr r) = Some (fkey_of g)).
+
+Definition okey_eqb (a b : option (option bstr * list (N * N))) : bool :=
+  match a, b with Some x, Some y => fkey_eqb x y | None, None => true | _, _ => false end.
+Definition fn_resolvesb (units : list unit) (files : list (nat * N)) (Lc : N) (g : fn_info) : bool :=
+  forallb (fun uf => match nth_error units (fst uf) with
+                     | None => true
+                     | Some u => forallb (fun r => negb (stmt_row (snd uf) Lc r) ||
+                                   Bool.eqb (addr_in_fn g (r_addr r)) (okey_eqb (akey units (r_addr r)) (Some (fkey_of g))))
+                                 (u_rows u)
+                     end) files.
+
+Lemma fn_resolvesb_ok : forall units files Lc g, fn_resolvesb units files Lc g = true -> fn_resolves units files Lc g.
+Proof.
+  intros units files Lc g H ui f u r Hin Hu Hr Hst. unfold fn_resolvesb in H. rewrite forallb_forall in H.
+  specialize (H (ui, f) Hin). cbn [fst snd] in H. rewrite Hu in H. rewrite forallb_forall in H.
+  specialize (H r Hr). rewrite Hst in H. cbn [negb orb] in H. apply Bool.eqb_prop in H. rewrite H.
+  destruct (akey units (r_addr r)) as [k|]; cbn [okey_eqb].
+  - rewrite fkey_eqb_eq. split; congruence.
+  - split; discriminate.
+Qed.
+
+Lemma nodup_key_split : forall {A B} (f : A -> option B) l q k,
+  NoDup (filter_map f l) -> In q l -> f q = Some k ->
+  exists l1 l2, l = l1 ++ q :: l2 /\ forall x, In x (l1 ++ l2) -> f x <> Some k.
+Proof.
+  intros A B f. induction l as [|a l IH]; intros q k Hnd Hin Hk; [destruct Hin|].
+  cbn [filter_map] in Hnd. destruct Hin as [->|Hin].
+  - rewrite Hk in Hnd. inversion Hnd; subst. exists [], l. split; [reflexivity|].
+    intros x Hx Hfx. apply H1. apply in_filter_map. exists x. auto.
+  - destruct (f a) as [b|] eqn:Ha.
+    + inversion Hnd; subst. destruct (IH q k H2 Hin Hk) as [l1 [l2 [-> Hall]]].
+      exists (a :: l1), l2. split; [reflexivity|]. intros x [<-|Hx] Hfx; [|apply (Hall x Hx Hfx)].
+      apply H1. apply in_filter_map. exists q. split; [apply in_or_app; right; left; reflexivity|congruence].
+    + destruct (IH q k Hnd Hin Hk) as [l1 [l2 [-> Hall]]].
+      exists (a :: l1), l2. split; [reflexivity|]. intros x [<-|Hx] Hfx; [congruence|apply (Hall x Hx Hfx)].
+Qed.
+
+(* HEADLINE 4 ("every function or instantiation that contains the line gets its own breakpoint",
+   former witnesses W3 and W4): a function g that is resolved consistently and has an is_stmt,
+   non-end_sequence row of the chosen line in its ranges gets EXACTLY ONE of the answered addresses. *)
+Theorem find_closest_place_one_per_function : forall ovf units files line ps Lc g ui f u,
+  find_closest_place ovf units files line = Ok ps -> chosen_line units files line Lc ->
+  fn_resolves units files Lc g ->
+  In (ui, f) files -> nth_error units ui = Some u -> fn_has_line u f Lc g = true ->
+  exists l1 q l2, ps = l1 ++ q :: l2 /\ addr_in_fn g (r_addr (snd (snd q))) = true /\
+    forall x, In x (l1 ++ l2) -> addr_in_fn g (r_addr (snd (snd x))) = false.
+Proof.
+  intros ovf units files line ps Lc g ui f u H Hch Hres Hin Hu Hhas.
+  destruct (find_closest_place_spec _ _ _ _ _ H) as [Lc' [Hc [Hs [Hnd Hcomp]]]].
+  rewrite <- (chosen_line_unique _ _ _ _ _ Hch Hc) in *. clear Hc.
+  unfold fn_has_line in Hhas. apply existsb_exists in Hhas. destruct Hhas as [r [Hr Hb]].
+  apply andb_true_iff in Hb. destruct Hb as [Hb Hrin]. apply andb_true_iff in Hb. destruct Hb as [Hst _].
+  pose proof (proj1 (Hres ui f u r Hin Hu Hr Hst) Hrin) as Hkey.
+  apply In_nth_error in Hr. destruct Hr as [i Hi].
+  specialize (Hcomp ui f u i r Hin Hu Hi Hst). rewrite Hkey in Hcomp. destruct Hcomp as [q [Hq Hqk]].
+  destruct (nodup_key_split (pkey units) ps q (fkey_of g) Hnd Hq Hqk) as [l1 [l2 [-> Hall]]].
+  assert (Hplace : forall x, In x (l1 ++ q :: l2) ->
+            (addr_in_fn g (r_addr (snd (snd x))) = true <-> pkey units x = Some (fkey_of g))).
+  { intros x Hx. destruct (Hs x Hx) as [f' [u' [J1 [J2 [J3 J4]]]]].
+    apply (Hres (fst x) f' u' (snd (snd x)) J1 J2 (nth_error_In _ _ J3) J4). }
+  exists l1, q, l2. split; [reflexivity|]. split.
+  - apply (Hplace q); [apply in_or_app; right; left; reflexivity|exact Hqk].
+  - intros x Hx. destruct (addr_in_fn g (r_addr (snd (snd x)))) eqn:Hax; [|reflexivity]. exfalso.
+    apply (Hall x Hx). apply (Hplace x); [|exact Hax].
+    apply in_app_or in Hx. apply in_or_app. destruct Hx as [Hx|Hx]; [left; exact Hx|right; right; exact Hx].
+Qed.
+
+(* the former witnesses W3 / W4 and the generic example, on the repaired code *)
 Definition two_fn_unit : unit :=
   U [(16, 32); (64, 80)] 2
     [R 16 1 5 0 true false false false; R 20 1 6 4 true true false false; R 24 1 7 5 true false false false;
@@ -1181,25 +1724,6 @@ Definition two_fn_unit : unit :=
      R 80 1 7 22 true false false true]
     [(16, 32, 100); (64, 80, 200)]
     [F 100 (Some [102]) [(16, 32)]; F 200 (Some [123; 99; 108; 125]) [(64, 80)]].
-
-Theorem find_closest_place_every_function_refuted :
-  exists u files line g ps,
-    sorted_rowsb (u_rows u) = true /\ tie_okb (u_rows u) (u_rows u) = true /\ files_okb u = true /\
-    In g (u_fns u) /\ fn_has_line u 1 line g = true /\
-    find_closest_place true [u] files line = Ok ps /\
-    existsb (fun p => addr_in_fn g (r_addr (snd (snd p)))) ps = false.
-Proof.
-  exists two_fn_unit, [(0%nat, 1)], 7, (F 100 (Some [102]) [(16, 32)]),
-         [(0%nat, (5%nat, R 68 1 7 22 true true false false))].
-  repeat split; try (vm_compute; reflexivity).
-  left. reflexivity.
-Qed.
-
-(* REFUTATION 2, from the flags alone: after the first hit only rows with the same column AND the
-   same prologue_end / epilogue_begin / end_sequence flags are taken (dwarf/mod.rs:426-435).  Line 7
-   is the first statement of f = [0x10,0x20) (its prologue_end row) and also occurs, same column,
-   inside g = [0x40,0x50) (e.g. an inlined copy of f's body): the row in g is not a prologue end, so
-   g gets no place. *)
 Definition two_fn_unit_pe : unit :=
   U [(16, 32); (64, 80)] 2
     [R 16 1 7 5 true false false false; R 20 1 7 5 true true false false; R 32 1 7 5 true false false true;
@@ -1208,106 +1732,13 @@ Definition two_fn_unit_pe : unit :=
     [(16, 32, 100); (64, 80, 200)]
     [F 100 (Some [102]) [(16, 32)]; F 200 (Some [103]) [(64, 80)]].
 
-Theorem find_closest_place_flags_refuted :
-  exists u files line g ps,
-    sorted_rowsb (u_rows u) = true /\ tie_okb (u_rows u) (u_rows u) = true /\ files_okb u = true /\
-    In g (u_fns u) /\ fn_has_line u 1 line g = true /\
-    find_closest_place true [u] files line = Ok ps /\
-    existsb (fun p => addr_in_fn g (r_addr (snd (snd p)))) ps = false.
-Proof.
-  exists two_fn_unit_pe, [(0%nat, 1)], 7, (F 200 (Some [103]) [(64, 80)]),
-         [(0%nat, (1%nat, R 20 1 7 5 true true false false))].
-  repeat split; try (vm_compute; reflexivity).
-  right. left. reflexivity.
-Qed.
-
-(* a case where it works: two instantiations of a one-line generic function get one place each *)
-Example find_closest_place_example :
-  find_closest_place true
-    [U [(16, 32); (64, 80)] 2
-       [R 16 1 7 0 true false false false; R 20 1 7 27 true true false false; R 32 1 7 27 true false false true;
-        R 64 1 7 0 true false false false; R 68 1 7 27 true true false false; R 80 1 7 27 true false false true]
-       [(16, 32, 100); (64, 80, 200)]
-       [F 100 (Some [105; 100]) [(16, 32)]; F 200 (Some [105; 100]) [(64, 80)]]]
-    [(0%nat, 1)] 7
-  = Ok [(0%nat, (1%nat, R 20 1 7 27 true true false false)); (0%nat, (4%nat, R 68 1 7 27 true true false false))].
-Proof. vm_compute. reflexivity. Qed.
-
-(* at most one place per subprogram key (name, ranges) *)
-Definition pkey (units : list unit) (q : nat * (nat * row)) : option (option bstr * list (N * N)) :=
-  match find_function_by_pc units (r_addr (snd (snd q))) with
-  | Ok (Some (_, _, info)) => Some (fkey_of info)
-  | _ => None
-  end.
-
-(* [distinct_from units seen out]: walking [out] in order, the key of every place whose function is
-   found is different from all keys in [seen] and from the keys of the places before it *)
-Fixpoint distinct_from (units : list unit) (seen : list (option bstr * list (N * N))) (out : list (nat * (nat * row))) : Prop :=
-  match out with
-  | [] => True
-  | q :: t => match pkey units q with
-              | Some k => existsb (fkey_eqb k) seen = false /\ distinct_from units (k :: seen) t
-              | None => distinct_from units seen t
-              end
-  end.
-Fixpoint seen_after (units : list unit) (seen : list (option bstr * list (N * N))) (out : list (nat * (nat * row))) :=
-  match out with
-  | [] => seen
-  | q :: t => match pkey units q with
-              | Some k => seen_after units (k :: seen) t
-              | None => seen_after units seen t
-              end
-  end.
-
-Lemma distinct_app : forall units o1 o2 seen,
-  distinct_from units seen o1 -> distinct_from units (seen_after units seen o1) o2 ->
-  distinct_from units seen (o1 ++ o2) /\ seen_after units seen (o1 ++ o2) = seen_after units (seen_after units seen o1) o2.
-Proof.
-  intros units. induction o1 as [|q t IH]; intros o2 seen H1 H2; cbn [app distinct_from seen_after] in *.
-  - split; [assumption|reflexivity].
-  - destruct (pkey units q) as [k|].
-    + destruct H1 as [Hk H1]. destruct (IH o2 _ H1 H2) as [Ha Hb]. split; [split; assumption|assumption].
-    + apply IH; assumption.
-Qed.
-
-Lemma filter_unique_distinct : forall units ui ps seen seen' out,
-  filter_unique units ui seen ps = Ok (seen', out) ->
-  distinct_from units seen out /\ seen' = seen_after units seen out.
-Proof.
-  intros units ui. induction ps as [|p t IH]; intros seen seen' out H; cbn [filter_unique] in H.
-  - inversion H; subst. split; [exact I|reflexivity].
-  - inv_bind H. destruct a as [[[vi d] info]|].
-    + destruct (existsb (fkey_eqb (fkey_of info)) seen) eqn:Hex.
-      * apply IH. assumption.
-      * inv_bind H. destruct a as [s o]. cbn [fst snd] in H. inversion H; subst.
-        destruct (IH _ _ _ E0) as [H1 H2]. cbn [distinct_from seen_after]. unfold pkey. cbn [snd]. rewrite E.
-        split; [split; assumption|assumption].
-    + inv_bind H. destruct a as [s o]. cbn [fst snd] in H. inversion H; subst.
-      destruct (IH _ _ _ E0) as [H1 H2]. cbn [distinct_from seen_after]. unfold pkey. cbn [snd]. rewrite E.
-      split; assumption.
-Qed.
-
-Lemma closest_units_distinct : forall units needle files seen seen' out,
-  closest_units units needle files seen = Ok (seen', out) ->
-  distinct_from units seen out /\ seen' = seen_after units seen out.
-Proof.
-  intros units needle. induction files as [|[ui f] t IH]; intros seen seen' out H; cbn [closest_units] in H.
-  - inversion H; subst. split; [exact I|reflexivity].
-  - destruct (nth_error units ui) as [u|] eqn:Hu; [|discriminate].
-    inv_bind H. inv_bind H. inv_bind H. destruct a0 as [s1 o1]. destruct a1 as [s2 o2]. cbn [fst snd] in *.
-    inversion H; subst. apply filter_unique_distinct in E0. destruct E0 as [H1 ->].
-    apply IH in E1. destruct E1 as [H2 ->].
-    destruct (distinct_app units o1 o2 seen H1 H2) as [Ha Hb]. split; [assumption|symmetry; assumption].
-Qed.
-
-(* no two answered places belong to the same (name, ranges) subprogram *)
-Theorem find_closest_place_one_per_key : forall ovf units files line ps,
-  find_closest_place ovf units files line = Ok ps -> distinct_from units [] ps.
-Proof.
-  intros ovf units files line ps H. unfold find_closest_place in H. inv_bind H. inv_bind H.
-  destruct a0 as [s1 o1]. cbn [fst snd] in H. destruct o1 as [|q o1].
-  - inv_bind H. destruct a0 as [s2 o2]. cbn [snd] in H. inversion H; subst.
-    apply closest_units_empty in E0. destruct E0 as [-> _].
-    apply closest_units_distinct in E1. tauto.
-  - inversion H; subst. apply closest_units_distinct in E0. tauto.
-Qed.
+Example find_closest_place_w3_w4_repaired :
+  find_closest_place true [two_fn_unit] [(0%nat, 1)] 7 =
+    Ok [(0%nat, (2%nat, R 24 1 7 5 true false false false)); (0%nat, (5%nat, R 68 1 7 22 true true false false))] /\
+  find_closest_place true [two_fn_unit_pe] [(0%nat, 1)] 7 =
+    Ok [(0%nat, (1%nat, R 20 1 7 5 true true false false)); (0%nat, (5%nat, R 72 1 7 5 true false false false))] /\
+  fn_resolvesb [two_fn_unit] [(0%nat, 1)] 7 (F 100 (Some [102]) [(16, 32)]) = true /\
+  fn_resolvesb [two_fn_unit_pe] [(0%nat, 1)] 7 (F 200 (Some [103]) [(64, 80)]) = true /\
+  find_closest_place true [two_fn_unit] [(0%nat, 1)] U64_MAX = Ok [] /\
+  find_closest_place true [two_fn_unit] [(0%nat, 1)] 4 = Ok [(0%nat, (0%nat, R 16 1 5 0 true false false false))].
+Proof. vm_compute. repeat split; reflexivity. Qed.
